@@ -12,1364 +12,2814 @@ Definition show_fres (r : fres) : string :=
   end.
 Definition check (rs : list rune) : string := digest (show_fres (format_res rs)).
 Definition full (rs : list rune) : string := show_fres (format_res rs).
-Eval vm_compute in ("<<<M1719>>>" ++ check (runes_of_ascii "  options {
-ArrayPrefixLenType
-	=u16 ;FixedStringPadFromLeft
-    = 
-true
-
-    ;  JavaPackage
-= ""co\
-m.example.msg""
-; GoPackage  = 
-""ms\
-g"" 
-;	GoModule = ""example.com/msg""
-
-;
-}
-
-    MetaData Meta
-	{
-    u32
-    SeqNum
-    `sequence number`,	char[
-
-    8
+Eval vm_compute in ("<<<M814>>>" ++ check (runes_of_ascii "//	t
+packet charz // " ++ [128512]%N ++ runes_of_ascii " emoji
+{ @leftPad ( ' '
+    )repeat	As `line1
+line2` , match tag
+// packet A { u8 x, }
+// " ++ [27880; 37322]%N ++ runes_of_ascii "
+as
+Logon { 007: roots ,
+""" ++ [128512]%N ++ runes_of_ascii """
+    // trailing space 
+    :
+    calculatedFrom
+[65535
+    , ""x y"",0 ,
+"""" , """" ]: body // c
+, ""\n"":	BodyLength, }
+    , @leftPad
+( '\x00' ) char[ 255
 ]
-Symbol `symbol` 
-,  zchar[5
-
-    ]
-ZSym	`z symbol`
-
-,  string  Note
+    msg_type
+@lengthOf( matchKey ) `line1
+line2` , u16 options1 @calculatedFrom(""{,}"" ) `two words` ,
+Foo {repeat rootA , crc f32a `crlf
+line` ,},@lengthOf( packetx	) repeat char[ 4294967296
+]
+i64_	,  @rightPad ( '0'
+) roots stringy
+    ,string a1	, @rightPad ( '\x00')
+@rightPad ( // " ++ [27880; 37322]%N ++ runes_of_ascii "
+'0' ) match
+    Header as charz{ 3 :
+repeatCount ""{,}"" :	len ,
+    } ,@tag( 4294967296 )repeat
+i8i8
+//
+// `tick` ""quote"" 'q'
+matchKey `it's`
     ,
-	Symbol
-    AltSymbol
-
-`alias of symbol`,
-
-f64  Price ,
-} packet 
-Inner{u8
-
-    a
-, i16
-    b
-
-, 
-string
-
-    c
-,	}
-
-    packet Inner2 {
-u8
-
-a2,
-
+}  packet // " ++ [27880; 37322]%N ++ runes_of_ascii "
+metadata {
+    o { char[] Pad ,
+    // `tick` ""quote"" 'q'
+    match	repeatCount// @lengthOf(
+as Z9_ {	0123456789 //
+:  msg_type 4294967296:trueish
+,  [""packet"",
+""x y"" ]
+    :falsey}  , repeat int string_ , // `tick` ""quote"" 'q'
+}, @tag(
+// a // b
+// 50% %s
+007
+// trailing space 
+// packet A { u8 x, }
+)
+    match Pad
+    as
+leftPad { [
+    ""a\""b"", ""it's"",	""x y"" ,	""it's""  , 007 ,
+""`tick`"" , 65535
+] :
+Header
+[
+42] : charz ,
+007 : rootA , },
+zchar[ 0123456789
+]
+falsey @lengthOf( metadata
+    //	t
+    ) , A {
+    match x as /// triple
+f32a {	0123456789 : repeatCount , [ """ ++ [28040; 24687]%N ++ runes_of_ascii """
+    ]: tag
+, 00 : i64_
+},match lengthOf as	Packet {  65535 : string_
+, // 50% %s
+""a\""b""
+    // c
+    : roots,
+4294967296	:
+chars // @lengthOf(
+,
+    //x
+    } ,
     char[
-
-3
-]c2, 
-} packet
-Logon
-
+0
+    ] x `" ++ [28040; 24687; 31867; 22411]%N ++ runes_of_ascii "` ,
+    }
+    , match msg_type as
+Logon {
+65535 : Pad ,}// " ++ [128512]%N ++ runes_of_ascii " emoji
+,  @leftPad
+( '0' ) repeat
+metadata {repeat u32
+    // a // b
+    Foo`// not a comment`
+,match _x // trailing space 
+as Foo { // 50% %s
+[ ""`tick`""] :
+    Foo,
+65535: repeatCount  , """ ++ [28040; 24687]%N ++ runes_of_ascii """	:crc""CRC32"" :
+calculatedFrom , ""// no comment""
+// a // b
+// a // b
+: lengthOf , }  , repeat int64 repeatCount
+    ,
+} ,
+match Pad// c
+as Packet {
+""abc""  :
+packetx , """" :rootA
+    ,""a\""b"" :
+    packetx ""\" ++ [233]%N ++ runes_of_ascii """ :f32a
+    10	:
+x_y_z , },
+    u128 `// not a comment` ,@lengthOf( calculatedFrom
+// " ++ [27880; 37322]%N ++ runes_of_ascii "
+// " ++ [27880; 37322]%N ++ runes_of_ascii "
+)match
+string_
+    // packet A { u8 x, }
+    as  u {""" ++ [28040; 24687]%N ++ runes_of_ascii """
+:x_y_z
+    //
+    255 :As	, 007 // " ++ [128512]%N ++ runes_of_ascii " emoji
+:
+// a // b
+// packet A { u8 x, }
+len """ ++ [233]%N ++ runes_of_ascii "t" ++ [233]%N ++ runes_of_ascii """ :
+/// triple
+// trailing space 
+a1 0
+// " ++ [27880; 37322]%N ++ runes_of_ascii "
+//
+:
+Pad ,
+    } ,}
+")).
+Eval vm_compute in ("<<<M264>>>" ++ check (runes_of_ascii "root packet body { o {a1
+rootA , },@leftPad
+( ' ' // a // b
+)
+    // packet A { u8 x, }
+    charz int, repeat packetx
+// trailing space 
+// " ++ [128512]%N ++ runes_of_ascii " emoji
+{ repeat Z9_{  lengthOf @calculatedFrom( ""`tick`""
+    )
+`a\` ,
+} ,int8 i64_
+// `tick` ""quote"" 'q'
+// 50% %s
+,} , @lengthOf(
+    len ) repeat
+    zchar{
+    /// triple
+    Pad a1 , int16 a1 @calculatedFrom(
+    ""1""// 50% %s
+) `` ,	rootA	{ match a1 as options1	{ 4294967296 :  Header ,""{,}""
+    :i8i8 [ """ ++ [28040; 24687]%N ++ runes_of_ascii """ , 7 ] :x , """":i64_ , }
+, f32a // " ++ [27880; 37322]%N ++ runes_of_ascii "
 {
-u8 
-x
-
-,
-
-    string
-	user, 
-repeat u16 
-codes
-
-    , 
-}  packet Logout
-
-{u16 
-reason  , 
-}
-packet
-    Empty{ } 
-root packet 
-Msg
-{u8 su8 
-, 
-uint8 luint8
-,
-    u16 su16 
-,
-uint16 luint16 ,  u32 su32
-
-, uint32
-luint32
-    ,
-
-    u64
-su64,
-uint64
-    luint64 ,
-i8
-	si8
-, 
-int8 lint8,
-i16
-si16,int16
-
-    lint16
-,
-i32  si32
-    , int32  lint32
-    ,
-i64
-
-si64
-,
-	int64 lint64
-
-,
-f32
-
-sf32
-
-    ,float32
-
-lfloat32
-,
-f64
-sf64  , float64
-	lfloat64,  char[ 
-6
-	]
-fsplain
-,
-    @leftPad
-	(	'0'  ) 
-char[
-4] fs0 ,
-    @rightPad 
-(
-	'0'  )char[ 5
-    ]
-fs1
-
-, @leftPad
-    (
-' '	) 
-char[
-6
-
-]
-fs2 
-,
-@rightPad
-( ' '  )char[ 7
-]fs3
-	, @leftPad ( '\x00')	char[
-    8
-    ] fs4
-,
-@rightPad 
-(
-'\x00'	)
-
-    char[  9
-] 
-fs5 ,  @leftPad
-
-    (
-    ) char[ 10
-	]
-    fs6
-, 
-@rightPad  ()char[
-	11 ]
-	fs7
-
-    ,
-	zchar[7
-	]
-fz ,
-
-@leftPad
-	(	'0')
-    zchar[  3
-    ]
-fzl0
-
-    ,
-
-    string s1  `doc`	, 
-char[]
-
-    s2 ,
-
-Inner,	Sub 
-{
-	u8	q,
-	string  w  ,Deep  {
-
-    u16
-z,
-
-    repeat	i32 
-zs,
-    } ,
-
-    } ,
-repeat
-
-u8 ru8 
-,
-repeat  u16
-	ru16
-, repeat
-	u32  ru32 ,
-repeat
-	u64 ru64
-,
     repeat
-i8
-    ri8
-    ,repeat i16  ri16  ,
+    a1 ,
+    // c
+    len // c
+@calculatedFrom( ""abc"") , } ,// `tick` ""quote"" 'q'
+repeat	zchar[10 ] stringy	`a\`,
+repeat calculatedFrom // " ++ [128512]%N ++ runes_of_ascii " emoji
+{ repeat repeatCount
+// c
+//	t
+, repeat i32 Pad `" ++ [28040; 24687; 31867; 22411]%N ++ runes_of_ascii "` ,	}
+,} ,
+lengthOf{ lengthOf @calculatedFrom( ""it's"") ,  char[]  Pad`say ""hi""`
+, },
+} ,
+zchar[
+0123456789 ]
+chars,	float
+@lengthOf(
+asx )
+, zchar{
+    match msg_type as Packet { ""packet"" : packetx 1: chars , 0123456789
+: metadata 255 : lengthOf
+// trailing space 
+/// triple
+,""// no comment"": a1,// 50% %s
+4294967296 :  pack , } ,
+    }	, @leftPad (  ) char[ 00
+    ] rootA ,
+    MetaDataX { match float
+    as body{
+// `tick` ""quote"" 'q'
+// @lengthOf(
+[ ""a\""b"" , 007] :
+// @lengthOf(
+// 50% %s
+_x  , } , match calculatedFrom as
+x_y_z { // a // b
+0123456789 :o 0 : a1 , }  ,_x{ match body// a // b
+as	As	{
+7: pack
+,
+// trailing space 
+// `tick` ""quote"" 'q'
+""it's""
+    : f32a , } , }
+, repeat
+char[] x
+    `a\`, } , }
+packet x_y_z{repeat
+Pad
+    // c
+    { int32 int
+//	t
+// a // b
+@calculatedFrom( ""CRC32""
+    )
+    // c
+    , }  , @tag( 3	)
+    @lengthOf(roots )	@tag( 00 ) match rootA
+    as
+// trailing space 
+// c
+u{ [7] : string_ [// " ++ [128512]%N ++ runes_of_ascii " emoji
+10
+, ""CRC32""
+,
+007
+]
+    :
+Logon
+, 007
+:metadata // `tick` ""quote"" 'q'
+,
+255:
+/// triple
+// c
+As [ // " ++ [27880; 37322]%N ++ runes_of_ascii "
+""packet""
+    ]:zchar}
+//x
+// a // b
+, }	packet roots	{	float64
+/// triple
+// `tick` ""quote"" 'q'
+Packet, }
+")).
+Eval vm_compute in ("<<<M4281>>>" ++ check (runes_of_ascii "
+packet
 
-    repeat	i32	ri32 ,repeat
-    i64 
-ri64 ,
-repeat f32
-    rf32 ,
-repeat  f64  rf64 ,
-    repeat string	rstr  , repeat char[]  rstr2
+Logon{ string
+    Header
+`line1
+line2`
+
+    ,
+@lengthOf(
+u)char[]
+
+    Z9_@calculatedFrom(
+    ""x y"" ) ,
+int @lengthOf(Packet
+
+    // " ++ [128512]%N ++ runes_of_ascii " emoji
+
+) 
+,
+
+    char[ 0] 
+tag  ,// a // b
+
+	match	crc 
+as int
+
+{ [  """" , 
+10 
+] :
+pack
+
+    ,	[
+
+    42
+,
+
+007	, 1  // c
+,
+""\n""  ,""" ++ [28040; 24687]%N ++ runes_of_ascii """
+
+] :
+
+options1 
+,0123456789 
+      // " ++ [128512]%N ++ runes_of_ascii " emoji
+    : 
+
+// `tick` ""quote"" 'q'
+// " ++ [128512]%N ++ runes_of_ascii " emoji
+lengthOf
+// `tick` ""quote"" 'q'
+  //x
+		,65535 :
+matchKey """ ++ [128512]%N ++ runes_of_ascii """
+:
+    As , 
+""\n""
+    :charz ,}
+,  int8 i8i8
+
+,
+	x_y_z  @lengthOf(	options1 ) , //x
+  }
+	packet
+int {@lengthOf(
+
+    BodyLength // @lengthOf(
+	  ) 
+        //x
+@calculatedFrom( """"  )
+	@calculatedFrom(
+
+    // trailing space 
+  ""// no comment"") repeat
+char[]
+leftPad
+    // " ++ [128512]%N ++ runes_of_ascii " emoji
+// " ++ [27880; 37322]%N ++ runes_of_ascii "
+    	`100% of %d`
+
+    ,
+
+    MetaDataX
+	`
+`
+,
+        // a // b
+    	// `tick` ""quote"" 'q'
+repeat  i64 
+
+// c
+  // `tick` ""quote"" 'q'
+T
+	, 	 //
+	repeat	float
+
+{
+
+    repeat
+
+    zchar[
+
+1] 
+len `// not a comment`
+, 	 // " ++ [128512]%N ++ runes_of_ascii " emoji
+match Logon 
+	    //	t
+      as len {	[ 
+255
+
+    ]: options1 , // trailing space 
+  	[
+
+    ""a\""b"" ,  ""\" ++ [233]%N ++ runes_of_ascii """ , 
+0123456789, 0123456789
+
+    ,
+        // `tick` ""quote"" 'q'
+	// c
+    	7
+	]
+
+    :
+options1 
+        // " ++ [27880; 37322]%N ++ runes_of_ascii "
+  //
+, 
+[
+4294967296
+	, ""a\""b"" ]
+
+:
+    tag	42 :
+
+T
+
+    [ 
+4294967296
+,""`tick`""
+] :charz
 	,
 
-    repeat  char[
-3 ] 
-rfs  , repeat
-zchar[
+[ 0
 
-3  ]rfz ,
-	repeat  Inner2 ,
-
-    repeat Grp
-{ u8 k 
-,char[ 2 ] 
-v  ,	}
-
-    ,  SeqNum
-
+, """ ++ [233]%N ++ runes_of_ascii "t" ++ [233]%N ++ runes_of_ascii """
+] : len
+	}  ,
+repeat
+f64 zchar `say ""hi""`
     ,
-	SeqNum seq2 
-,
 	repeat
-	SeqNum 
-seqs,
-	Symbol
+	i64 
+i64_`// not a comment`
 
-,
-	AltSymbol
-	alt
+, 	 //	t
+    }
 
-    , ZSym
-,	Note	,
-repeat	Symbol
-syms
-,Price
-    px
-,	u16
-MsgType
     ,
 
-    u32
-
-    BodyLen
-
-    @lengthOf( Body )
-,  match 
-MsgType as Body
-{ 
-1  :
-
-    Logon,
-[	2
-	, 3 ] :
-    Logout ,
-
-7: Logon,
-    9  :Empty ,}
-
-    ,u32
-
-    Checksum
-
-@calculatedFrom(""CRC32""
-    ) ,}
-
-")).
-Eval vm_compute in ("<<<M5>>>" ++ check (runes_of_ascii "root
-packet zchar {
-repeatCount // a // b
-@lengthOf(  asx )	, match
-string_ as o// @lengthOf(
-{ 7 :packetx
-    ,
-    7 : Pad},// packet A { u8 x, }
-zchar[ 65535 ]
-    T
-@calculatedFrom( /// triple
-""" ++ [128512]%N ++ runes_of_ascii """
-)
-    , tag @lengthOf( // " ++ [27880; 37322]%N ++ runes_of_ascii "
-u ) `crlf
-line`,
-    @calculatedFrom(
-    // " ++ [128512]%N ++ runes_of_ascii " emoji
-    """" ) _x	@calculatedFrom(// @lengthOf(
-""a	b"" )
-`// not a comment` ,match Z9_ as float { 0123456789 : calculatedFrom, ""{,}"":u //	t
-} , @leftPad( ) @tag( 255	) @lengthOf(i8i8
-    ) match
-tag as
-    trueish { 4294967296:	uint8x
-    ,[ //x
-65535 ] : u8x ,	10 : i64_,
-""""
-    :metadata
-    } , int64 T , } root packet len { @tag(	0) Logon ,
-@tag(255) repeat u64 packetx `it's`
-    , @tag(
-    4294967296 )
-zchar[007 ]repeatCount `a\` , char[ 4294967296
-]
-// " ++ [128512]%N ++ runes_of_ascii " emoji
-// packet A { u8 x, }
-asx @calculatedFrom(
-""it's"" ), }	root packet asx {	uint16 options1@lengthOf(
-    matchKey ) `it's`	, }	root //
-packet
-Logon{ @lengthOf( asx) @calculatedFrom(  ""packet""
-)	Z9_ @calculatedFrom(// " ++ [128512]%N ++ runes_of_ascii " emoji
-""" ++ [28040; 24687]%N ++ runes_of_ascii """)
-    ,
-@tag(	007
-    /// triple
-    )
-zchar[0123456789 ] i64_ ,
-msg_type`line1
-line2` , repeat zchar[
-007 ]Pad
-`
-`	, falsey {
-    chars lengthOf ``
-    ,	match Header as lengthOf
-    {
-""" ++ [233]%N ++ runes_of_ascii "t" ++ [233]%N ++ runes_of_ascii """	: falsey 42:
-uint8x , [ 007
-,""abc""
-    ,
-// c
-// a // b
-""abc"" ,""a\\""  ,
-65535 // c
-,""a\""b"" ,
-42, ""{,}"" ]:charz } , int64 //x
-Foo // c
-, Z9_@lengthOf( int )`it's`
-, }
-,
-    @rightPad
-    ( ) // trailing space 
-string As @calculatedFrom(""" ++ [28040; 24687]%N ++ runes_of_ascii """ ) ,
-    // c
-    match matchKey as repeatCount{
-4294967296 :msg_type	, """ ++ [28040; 24687]%N ++ runes_of_ascii """ : zchar 3  : u8x , """":	asx
-// trailing space 
-// `tick` ""quote"" 'q'
-, } ,}
-")).
-Eval vm_compute in ("<<<M50>>>" ++ check (runes_of_ascii "//x
-packet Header
-    {
-    body
-// " ++ [27880; 37322]%N ++ runes_of_ascii "
-// " ++ [27880; 37322]%N ++ runes_of_ascii "
-@calculatedFrom(
-    ""CRC32"" )
-`it's` ,repeat
-int64//x
-msg_type // " ++ [128512]%N ++ runes_of_ascii " emoji
-,
-//	t
-//
-@tag( 0 ) zchar[ 0 //
-]
-    int
-//	t
-// @lengthOf(
-, }
-    // " ++ [128512]%N ++ runes_of_ascii " emoji
-    options { Packet=
-true
-    MetaDataX =
-""" ++ [28040; 24687]%N ++ runes_of_ascii """ A
-    = string} root packet	Logon {
-    @leftPad // " ++ [27880; 37322]%N ++ runes_of_ascii "
-('0' //x
-)Header//
-leftPad `doc` ,
-    f32a
-    {	rootA @lengthOf( calculatedFrom )	, int8
-Packet `line1
-line2` , } , repeat calculatedFrom
-    { // `tick` ""quote"" 'q'
 match
-packetx as len { 1:matchKey ,
-0123456789 :repeatCount ,
-""\" ++ [233]%N ++ runes_of_ascii """ :
-float , 255:
-    MetaDataX
-, },} ,
-//x
-// " ++ [27880; 37322]%N ++ runes_of_ascii "
-leftPad {  repeat roots{ //	t
-roots
-@calculatedFrom(/// triple
-""abc"" ),int32
-BodyLength @calculatedFrom( ""packet"" )
-,
-}	, match repeatCount as
-matchKey { ""abc"" : u128 , """ ++ [128512]%N ++ runes_of_ascii """ : a1
-, ""a\\""
-:rootA ,	[  3,3 ]// c
-:
-x_y_z	007 :Foo
-    } ,
-}
-, // c
-repeat rootA	matchKey	`it's` //	t
-,	a1
-    @calculatedFrom(""x y"" )  `line1
-line2` ,int	,
-    @tag(
-// trailing space 
-//x
-65535) match metadata as	As
-{ ""x y"": Foo	,//x
-[ // `tick` ""quote"" 'q'
-""x y"" ]:
-    tag
-//
-// a // b
-, 3
-    : pack } ,repeat int8 charz ,char[] body , }
-options {
-    MetaDataX = char[ 0 ] ; } // a // b")).
-Eval vm_compute in ("<<<M253>>>" ++ check (runes_of_ascii "options{
-} packet matchKey { repeat
-int32 packetx, zchar[
-    10
-    //x
-    ] Packet
-    ,@lengthOf(string_
-) @tag( 007 ) @tag( 255 )// @lengthOf(
-Z9_ @calculatedFrom( """ ++ [28040; 24687]%N ++ runes_of_ascii """ ) ,
-@lengthOf(
-// `tick` ""quote"" 'q'
-// `tick` ""quote"" 'q'
-asx
-) @calculatedFrom(
-    // trailing space 
-    ""CRC32"" )
-string
-_x,
-    @calculatedFrom( """"
-    ) @lengthOf(
-trueish)x , @leftPad (
-)
-// `tick` ""quote"" 'q'
-/// triple
-zchar[ 4294967296 ]
-    float , @lengthOf(
-    // trailing space 
-    u128
-    )//	t
-Logon{repeat char[]x `u8 x,`, // packet A { u8 x, }
-} , @tag(
-1) f64 Z9_ ,
-u32 i64_
-`crlf
-line`  , @rightPad
-// `tick` ""quote"" 'q'
-// @lengthOf(
-( '\x00'	) @leftPad (	) repeat float32
-uint8x , }
-root packet
-u128
-    // `tick` ""quote"" 'q'
-    { i32
-    charz //	t
-@lengthOf( crc
-) `u8 x,`  ,// a // b
-@tag(
-65535 // " ++ [128512]%N ++ runes_of_ascii " emoji
-)// trailing space 
-@lengthOf( f32a ) repeat// " ++ [27880; 37322]%N ++ runes_of_ascii "
-Logon
-`{ , }`
-    , @rightPad (
-    ' ' ) @tag(65535
-)
-    repeat trueish , i32
-lengthOf
-    // `tick` ""quote"" 'q'
-    , }")).
-Eval vm_compute in ("<<<M1840>>>" ++ check (runes_of_ascii "packet Pad {
-    @tag(65535)
-    repeat char[4294967296] o `u8 x,`,
-    @calculatedFrom(""x y"")
-    metadata @lengthOf(repeatCount) `tab	here`,
-}
+	u128  as
+Header
+    { 
+""" ++ [128512]%N ++ runes_of_ascii """	:
 
-packet u128 {
-    // packet A { u8 x, }
-    // " ++ [128512]%N ++ runes_of_ascii " emoji
-    repeat zchar[10] _x,/// triple
-}
+x_y_z
 
-options {
-    /// triple
-    msg_type = true;
-}
+""// no comment""
+	:
 
-packet tag {
-    // c
-    @tag(7)
-    i32 f32a @lengthOf(u8x) `two words`,
-    string Foo @lengthOf(Foo),
-    @rightPad('0')
-    match As as crc {
-        """" : float,
-        //	t
-    },
-    repeat i16 i8i8,
-    @rightPad('0')
-    repeat u128 {
-        i64 tag @calculatedFrom(""" ++ [28040; 24687]%N ++ runes_of_ascii """),
-        i8i8 @calculatedFrom(""{,}"") `it's`,
-        repeat string rootA,
-    },
-    repeat string chars,
-    asx,
-    match calculatedFrom as calculatedFrom {
-        ""a\""b"" : Logon,
-        ""a	b"" : asx,
-    },
-    char zchar @calculatedFrom(""1"") `say ""hi""`,
-}")).
-Eval vm_compute in ("<<<M36>>>" ++ check (runes_of_ascii "packet  int {@tag( 00
-) float	,
-@leftPad( '0'
-)@calculatedFrom(""" ++ [28040; 24687]%N ++ runes_of_ascii """ ) match crc
-as body
-    {""`tick`"" : msg_type} // @lengthOf(
-,
-Logon
-,repeat u8x, // " ++ [27880; 37322]%N ++ runes_of_ascii "
-} packet MetaDataX { }packet string_ {
-repeat //
-Header Header
-, // trailing space 
-} packet
-A{ @rightPad // " ++ [27880; 37322]%N ++ runes_of_ascii "
-( '\x00' // trailing space 
-) @leftPad (
-    ' ' ) repeat uint64
-    matchKey // trailing space 
-, f32 len // @lengthOf(
-, // trailing space 
-repeat
-tag
-{i64
-// @lengthOf(
-// " ++ [27880; 37322]%N ++ runes_of_ascii "
-roots
-    // " ++ [27880; 37322]%N ++ runes_of_ascii "
-    @lengthOf( metadata ), }
-, @tag(
-65535
-    ) char[ //
-00 ]
-// a // b
-/// triple
-a1
-    ,repeat i16 i8i8 ,char[
-3 ]int @calculatedFrom(
-""a\\"" ) , // a // b
-@calculatedFrom( """ ++ [28040; 24687]%N ++ runes_of_ascii """) Pad// " ++ [128512]%N ++ runes_of_ascii " emoji
-@lengthOf(
-stringy ) ,/// triple
-}
-")).
-Eval vm_compute in ("<<<M276>>>" ++ check (runes_of_ascii "packet zchar { msg_type ,
-//
-// `tick` ""quote"" 'q'
-@tag( 65535 ) repeat float32 len,
-    @lengthOf(
-// " ++ [27880; 37322]%N ++ runes_of_ascii "
-// `tick` ""quote"" 'q'
-crc )	lengthOf
-    //
-    {
-repeat float `say ""hi""` ,}	, u32 // a // b
-Packet
-@lengthOf( i8i8// a // b
-)  `
-`
-// packet A { u8 x, }
-// packet A { u8 x, }
-,
-i8i8 // a // b
-, u32 calculatedFrom  @lengthOf( BodyLength //x
-)`a\` , @lengthOf( Logon// " ++ [128512]%N ++ runes_of_ascii " emoji
-) match MetaDataX
-as	Foo  { [
-""\n"" ,
-255 ] :Packet , 3: o
-    ,
-[007] : T, }
-, match pack as A { """ ++ [28040; 24687]%N ++ runes_of_ascii """
-: _x 007	:
-//x
-// " ++ [128512]%N ++ runes_of_ascii " emoji
-metadata,
-255 :
-As
-    ,
-    7 :charz, 10 : len, } , f32 len
-, @leftPad ('\x00'  )float32 trueish , }
-")).
-Eval vm_compute in ("<<<M178>>>" ++ check (runes_of_ascii "
-packet
-// packet A { u8 x, }
-// " ++ [27880; 37322]%N ++ runes_of_ascii "
-matchKey {} packet
-    string_ { matchKey @lengthOf(
-asx)
-    ,@rightPad ( ' '
-) metadata
-,
-// a // b
-// @lengthOf(
-o //
-chars ,  uint16 tag `u8 x,` ,
-repeat  float32 Logon  `two words` , /// triple
-matchKey	@calculatedFrom( ""a	b""
-)`doc`
-    ,
-repeat packetx
-a1 ,} MetaData Packet //
-{
-char[]
-    pack, string  zchar ,zchar[
-//	t
-// trailing space 
-1 ] x_y_z, int64
-    charz
-`say ""hi""`, u32
-lengthOf
-    `doc`
-,}
-options
-    { a1
-= int16 ; crc =' ';tag = char[ 42]
-leftPad
-    = true ; }")).
-Eval vm_compute in ("<<<M143>>>" ++ check (runes_of_ascii "root packet crc {@calculatedFrom(
-""" ++ [128512]%N ++ runes_of_ascii """)
-BodyLength{x_y_z i8i8
-//
-//
-, int32 uint8x
-`two words` ,	rootA tag , zchar[
-7] matchKey
-    `" ++ [233]%N ++ runes_of_ascii "` ,} , T { x@calculatedFrom( ""a	b"" )
-`// not a comment` ,zchar[ // " ++ [128512]%N ++ runes_of_ascii " emoji
-42 ] /// triple
-A
-, match chars
-as
-    //x
-    len {""packet"" :crc 3//x
-:
-chars [
-0123456789 , ""packet"" ]
-    : pack	[""packet""
-,
-00// " ++ [27880; 37322]%N ++ runes_of_ascii "
-,
-    7 ,""" ++ [28040; 24687]%N ++ runes_of_ascii """, 3
-,  ""packet"",
-    42, 0123456789
+A,
+    [
+0
+
     ] :
-repeatCount	""{,}"" :
-chars
-    ,/// triple
-} ,
-} ,
-}")).
-Eval vm_compute in ("<<<M1526>>>" ++ check (runes_of_ascii "packet  Frame
-{
-u8
-
-    HK
-
-    ,u8 BK
-,  u8 
-TK ,match HK as
-
-Hdr
-    {	1
-    :
-	HdrA
-
-    ,
-2
-
-:
-HdrB
-    ,},match
-
-    BK  as
-Body	{  1 : BodyA ,
-2
-	: BodyB,
-},match
-TK
-	as Trl
-{ 
-1: TrlA ,}
-
-,	}
-packet
-
-HdrA 
-{
-u8 a
-,
+	int
+	,
 
     }
 
-packet
-HdrB 
-{ u16
-    b
-,	}	packet BodyA  {	u32 c
-,}packet  BodyB{  u64 d
+,@rightPad
 
-, }
-packet
-    TrlA	{ u8
-e,
-}root
+    (
 
-packet
-	Msg
-	{  Frame
+    ' '	)pack
+
     ,
-	u8
-x, }")).
-Eval vm_compute in ("<<<M1843>>>" ++ check (runes_of_ascii "
-
-  // top
-
-packet
-
-    // c0
-    chars 
-	    // c1
-{ 
-        // c2
-      }  
-  // c3
-	  packet
-        // c4
-MetaDataX 
-    // c5
-{
-
-    // c6
-		@tag(
-
-    // c7
-	42
-
-    // c8
-    	)
-    // c9
-		i16
-
-// c10
-string_
-
-    // c11
-    ,
-	    // c12
-    repeat 
-
-// c13
-	  x 
-    // c14
-`say ""hi""` 
-      // c15
-		, 
-	    // c16
-	} 
-	// c17
-")).
-Eval vm_compute in ("<<<M2013>>>" ++ check (runes_of_ascii "  options
-{ LittleEndian
-	= 
-true ;	} packet  Sub
-{ u8
-
-a  ,
-@calculatedFrom(
-    ""CRC16""	)
-
-    u64 SubSum
-,
-    }
-
-root  packet  Frame {u16  MsgType 
-,
-    u16	BodyLen @lengthOf(  Body 
-)
-,Sub
-
-    Body ,  string
-	note,@calculatedFrom(
-
-    ""CRC16""	)
-u64
-Checksum ,
-
-    u8
-
-    tail
-    ,  }
-")).
-Eval vm_compute in ("<<<M1392>>>" ++ check (runes_of_ascii "// top
-packet
-    // c0
-chars
-    // c1
-{
-    // c2
 }
-    // c3
-packet
-    // c4
-MetaDataX
-    // c5
-{
-    // c6
-@tag(
-    // c7
-42
-    // c8
-)
-    // c9
-i16
-    // c10
-string_
-    // c11
-,
-    // c12
-repeat
-    // c13
-x
-    // c14
-`say ""hi""`
-    // c15
-,
-    // c16
-}
-    // c17
-")).
-Eval vm_compute in ("<<<M489>>>" ++ check (runes_of_ascii "root packet tag tag { }  packet MetaDataX{char[007	]
-// c
-/// triple
-asx  @calculatedFrom( ""a\""b""
-) `say ""hi""`// " ++ [27880; 37322]%N ++ runes_of_ascii "
-,  @tag(4294967296 )
-    char[1//x
-] packetx @calculatedFrom(""a\""b""
-    ) ,
-// " ++ [128512]%N ++ runes_of_ascii " emoji
-// a // b
-@calculatedFrom(""" ++ [233]%N ++ runes_of_ascii "t" ++ [233]%N ++ runes_of_ascii """  ) repeat pack // " ++ [27880; 37322]%N ++ runes_of_ascii "
-,
-    } // c")).
-Eval vm_compute in ("<<<M665>>>" ++ check (runes_of_ascii "root packet " ++ [65279]%N ++ runes_of_ascii " tag { }  packet MetaDataX{char[007	]
-// c
-/// triple
-asx  @calculatedFrom( ""a\""b""
-) `say ""hi""`// " ++ [27880; 37322]%N ++ runes_of_ascii "
-,  @tag(4294967296 )
-    char[1//x
-] packetx @calculatedFrom(""a\""b""
-    ) ,
-// " ++ [128512]%N ++ runes_of_ascii " emoji
-// a // b
-@calculatedFrom(""" ++ [233]%N ++ runes_of_ascii "t" ++ [233]%N ++ runes_of_ascii """  ) repeat pack // " ++ [27880; 37322]%N ++ runes_of_ascii "
-,
-    } // c")).
-Eval vm_compute in ("<<<M505>>>" ++ check (runes_of_ascii "root packet tag { }  MetaDataX packet{char[007	]
-// c
-/// triple
-asx  @calculatedFrom( ""a\""b""
-) `say ""hi""`// " ++ [27880; 37322]%N ++ runes_of_ascii "
-,  @tag(4294967296 )
-    char[1//x
-] packetx @calculatedFrom(""a\""b""
-    ) ,
-// " ++ [128512]%N ++ runes_of_ascii " emoji
-// a // b
-@calculatedFrom(""" ++ [233]%N ++ runes_of_ascii "t" ++ [233]%N ++ runes_of_ascii """  ) repeat pack // " ++ [27880; 37322]%N ++ runes_of_ascii "
-,
-    } // c")).
-Eval vm_compute in ("<<<M548>>>" ++ check (runes_of_ascii "root packet tag { }  packet MetaDataX{char[007	]
-// c
-/// triple
-asx  @calculatedFrom( ""a\""b""
- `say ""hi""`// " ++ [27880; 37322]%N ++ runes_of_ascii "
-,  @tag(4294967296 )
-    char[1//x
-] packetx @calculatedFrom(""a\""b""
-    ) ,
-// " ++ [128512]%N ++ runes_of_ascii " emoji
-// a // b
-@calculatedFrom(""" ++ [233]%N ++ runes_of_ascii "t" ++ [233]%N ++ runes_of_ascii """  ) repeat pack // " ++ [27880; 37322]%N ++ runes_of_ascii "
-,
-    } // c")).
-Eval vm_compute in ("<<<M511>>>" ++ check (runes_of_ascii "root packet tag { }  packet root{char[007	]
-// c
-/// triple
-asx  @calculatedFrom( ""a\""b""
-) `say ""hi""`// " ++ [27880; 37322]%N ++ runes_of_ascii "
-,  @tag(4294967296 )
-    char[1//x
-] packetx @calculatedFrom(""a\""b""
-    ) ,
-// " ++ [128512]%N ++ runes_of_ascii " emoji
-// a // b
-@calculatedFrom(""" ++ [233]%N ++ runes_of_ascii "t" ++ [233]%N ++ runes_of_ascii """  ) repeat pack // " ++ [27880; 37322]%N ++ runes_of_ascii "
-,
-    } // c")).
-Eval vm_compute in ("<<<M647>>>" ++ check (runes_of_ascii "root packet tag { }  packet MetaDataX{char[007	]
-// c
-/// triple
-asx  @calculatedFrom( ""a\""b""
-) `say ""hi""`// " ++ [27880; 37322]%N ++ runes_of_ascii "
-,  @tag(4294967296 )
-    char[1//x
-] packetx @calculatedFrom(""a\""b""
-    ) ,
-// " ++ [128512]%N ++ runes_of_ascii " emoji
-// a // b
-@calculatedFrom(""" ++ [233]%N ++ runes_of_ascii "t" ++ [233]%N ++ runes_of_ascii """  ) repeat pack")).
-Eval vm_compute in ("<<<M2119>>>" ++ check (runes_of_ascii "options {
-    StringPrefixLenType = u16;
-    FixedStringPadChar = ' ';
-}
-
-packet Party {
-}
-
-packet Quote {
-    repeat Party,
-    repeat char[2] f1,
-}
-
-packet Logon {
-}
-
-root packet Cancel {
-    uint16 x,
-    zchar[6] f1,
-}")).
-Eval vm_compute in ("<<<M1691>>>" ++ check (runes_of_ascii "// top
-root packet matchKey {
-    // c3
-    zchar[3] pack @calculatedFrom(""a	b"") `doc`,
-    // c12
-}
-
-// c13
-options {
-    // c15
-}
-
-// c16
-MetaData A {
-    // c19
-    int8 msg_type,
-    // c22
-}
-// c23")).
-Eval vm_compute in ("<<<M1272>>>" ++ check (runes_of_ascii "// top
-packet
-    // c0
-x
-    // c1
-{
-    // c2
-@rightPad
-    // c3
-(
-    // c4
-)
-    // c5
-repeat
-    // c6
-roots
-    // c7
-Logon
-    // c8
-`doc`
-    // c9
-,
-    // c10
-}
-    // c11
-")).
-Eval vm_compute in ("<<<M472>>>" ++ check (runes_of_ascii "packet
-    // `tick` ""quote"" 'q'
-    crc
-// packet A { u8 x, }
-//	t
-{
-u32 a1 ,
-    // trailing space 
-    roots
-charz //
-`two words`,	}
-    MetaData int {
-@tag} /// triple")).
-Eval vm_compute in ("<<<M702>>>" ++ check (runes_of_ascii "root packet len // trailing space 
-{
-// " ++ [27880; 37322]%N ++ runes_of_ascii "
-//	t
-char[10
-] ] metadata	@lengthOf( o ) `crlf
-line`,
-    @rightPad
-( ' '
-) string
-    Header @calculatedFrom( ""a\\""
-    ), }
-")).
-Eval vm_compute in ("<<<M452>>>" ++ check (runes_of_ascii "packet
-    // `tick` ""quote"" 'q'
-    crc
-// packet A { u8 x, }
-//	t
-{
-u32 a1 ,
-    // trailing space 
-    roots
-charz //
-`two words`,	}
-    MetaData int [
-} /// triple")).
-Eval vm_compute in ("<<<M478>>>" ++ check (runes_of_ascii "packet
-    // `tick` ""quote"" 'q'
-    crc
-// packet A { u8 x, }
-//	t
-{
-u32 a1 ,
-    // trailing space 
-    a" ++ [769]%N ++ runes_of_ascii "b
-charz //
-`two words`,	}
-    MetaData int {
-} /// triple")).
-Eval vm_compute in ("<<<M1996>>>" ++ check (runes_of_ascii "packet A {
-    match k as n {
-        [
-            1, 22, ""c c"", 4, 5,
-            ""f"", 7, 8, ""i"", 10,
-            11, ""l""
-        ] : B,
-        2 : C,
-    },
-}")).
-Eval vm_compute in ("<<<M1494>>>" ++ check (runes_of_ascii "packet A {
-    u8 a,
-}
-packet B {
-    u16 b,
-}
-root packet P {
-    u8 K,
-    match K as M {
-        [1, 2] : A,
-        3 : B,
-        7 : A,
-    },
-}
-")).
-Eval vm_compute in ("<<<M1461>>>" ++ check (runes_of_ascii "packet
-	B {
-
-    u8
-
-a ,}  root  packet  P
-	{
-    u8
-    K, 
-match
-    K
-
-    as	Body
-
-{
-
-1
-: B	,
-	},
-
-u16
-    L
-
-@lengthOf(
-
-Body)
-	,}
-")).
-Eval vm_compute in ("<<<M1651>>>" ++ check (runes_of_ascii "MetaData metadata{char[65535	] 
-x
-, 
-
-    // c
-
-  char[]
-	u128	, pack
-    Z9_ , }packet// " ++ [27880; 37322]%N ++ runes_of_ascii "
-		a1
-{repeat
-float 
-repeatCount ,	}
 
 ")).
-Eval vm_compute in ("<<<M1876>>>" ++ check (runes_of_ascii "MetaData
-
-    float 
-{float64	charz `
-`, }
-
-    root
-    packet
-	chars
-    {
-@rightPad	// c
-		(
-'0' )
-
-    Foo
-
-,	}
-")).
-Eval vm_compute in ("<<<M1242>>>" ++ check (runes_of_ascii "root packet matchKey { zchar[ 3 ] pack @calculatedFrom( ""a	b""
-// c
-) `doc` , } options { } MetaData A { int8 msg_type , }")).
-Eval vm_compute in ("<<<M1970>>>" ++ check (runes_of_ascii "packet A {
-    u16 len @lengthOf(body) `
-        `,
-    u32 crc @calculatedFrom(""CRC32"") `
-        `,
-    string body,
-}")).
-Eval vm_compute in ("<<<M2097>>>" ++ check (runes_of_ascii "packet metadata {
-    Logon {
-        A `" ++ [28040; 24687; 31867; 22411]%N ++ runes_of_ascii "`,
-        tag o,
-    },
-    zchar len `// not a comment`,
-    // c
-}")).
-Eval vm_compute in ("<<<M2052>>>" ++ check (runes_of_ascii "MetaData falsey
-
-{ 
-//x
-
-//	t
-char[	/// triple
-  65535	]
-
-Packet
-
-    `{ , }` , // @lengthOf(
-    } 	 //x
-")).
-Eval vm_compute in ("<<<M904>>>" ++ check (runes_of_ascii "packet A {
-  match k as n {
-    [1, ""bb"", 007, ""d"", 5, ""f"", 7, ""h"", 9, ""j"", 11, ""l""] : B
-    2 : C
-  },
-}")).
-Eval vm_compute in ("<<<M1978>>>" ++ check (runes_of_ascii "packet FooBar {
-    u8 a,
-}
-
-packet foo_bar {
-    u16 b,
-}
-
-root packet R {
-    FooBar,
-    foo_bar,
-}")).
-Eval vm_compute in ("<<<M870>>>" ++ check (runes_of_ascii "packet A {
-  match k as n {
-    [""a"", ""bb"", 007, ""d"", ""e"", 66, ""g"", ""h"", 9] : B,
-    2 : C
-  },
-}")).
-Eval vm_compute in ("<<<M383>>>" ++ check (runes_of_ascii "root packet SimpleMessage {
-    uint16 MsgType `" ++ [28040; 24687; 31867; 22411]%N ++ runes_of_ascii "`,
-    string JsonBody `Json" ++ [23383; 31526; 20018; 28040; 24687; 20307]%N ++ runes_of_ascii "`,
-}")).
-Eval vm_compute in ("<<<M1625>>>" ++ check (runes_of_ascii "packet o {
-    repeat Logon uint8x,
-}
-
-options {
-    asx = zchar[3]
-    stringy = '\x00'
-}")).
-Eval vm_compute in ("<<<M1201>>>" ++ check (runes_of_ascii "MetaData float { float64 charz `
-` , } root packet chars
-// c
-{ @rightPad ( '0' ) Foo , }")).
-Eval vm_compute in ("<<<M1412>>>" ++ check (runes_of_ascii "packet chars { } packet MetaDataX { @tag( 42 // c
-) i16 string_ , repeat x `say ""hi""` , }")).
-Eval vm_compute in ("<<<M931>>>" ++ check (runes_of_ascii "packet A {
-    B b `a
-    b
-  c`,
-    B `a
-    b
-  c`,
-    repeat B bs `a
-    b
-  c`,
-}")).
-Eval vm_compute in ("<<<M1142>>>" ++ check (runes_of_ascii "packet metadata { Logon { A `" ++ [28040; 24687; 31867; 22411]%N ++ runes_of_ascii "` , tag o // c
-, } , zchar len `// not a comment` , }")).
-Eval vm_compute in ("<<<M1347>>>" ++ check (runes_of_ascii "packet o { repeat
-// c
-Logon uint8x , } options { asx = zchar[ 3 ] stringy = '\x00' }")).
-Eval vm_compute in ("<<<M7>>>" ++ check (runes_of_ascii "packet pack {
-repeat As {
-char[ 65535 // trailing space 
-] crc `crlf
-line` , },
-}
-")).
-Eval vm_compute in ("<<<M1308>>>" ++ check (runes_of_ascii "MetaData body
-// c
-{ i64 pack `it's` , } packet stringy { int16 calculatedFrom , }")).
-Eval vm_compute in ("<<<M843>>>" ++ check (runes_of_ascii "packet A {
-  match k as n {
-    [1, 22, ""c c"", 4, 5, ""f"", 7] : B
-    2 : C
-  },
-}")).
-Eval vm_compute in ("<<<M797>>>" ++ check (runes_of_ascii "packet A {
-  match k as n {
-    [""a"", ""bb"", ""c c"", ""d""] : B,
-    2 : C
-  },
-}")).
-Eval vm_compute in ("<<<M955>>>" ++ check (runes_of_ascii "packet A {
-    B b `tab
-	x`,
-    B `tab
-	x`,
-    repeat B bs `tab
-	x`,
-}")).
-Eval vm_compute in ("<<<M1616>>>" ++ check (runes_of_ascii "
+Eval vm_compute in ("<<<M3871>>>" ++ check (runes_of_ascii "
 // top
-  root// c0
-packet // c1
-  pack	// c2
-	{// c3
-} 	 // c4
+
+options
+    // c0
+
+	{	// c1a
+    	// c1b
+    LittleEndian=
+
+    // c3
+true
+// c4
+	;  // c5
+FixedStringPadFromLeft	=	// c7
+true  // c8a
+    	// c8b
+	;  // c9a
+// c9b
+
+FixedStringPadChar=// c11a
+  	// c11b
+  '0'	// c12
+	; 
+    // c13
+  	}
+    // c14
+  packet// c15
+  Reject
+	{@rightPad 
+    // c18
+    ( 	 // c19
+
+  '0'  
+  // c20
+)char[  // c22
+1 // c23a
+	// c23b
+	  ]	// c24
+  Tail// c25a
+	// c25b
+    	,	// c26a
+	  // c26b
+string // c27
+  	msgKind 
+,	InQty95
+// c30
+      { 	 // c31
+u8// c32
+pad0 // c33
+, 
+} // c35
+	  ,// c36a
+    // c36b
+    } packet // c38a
+    // c38b
+Order
+    // c39
+
+  {  uint32 // c41
+  Ref	// c42a
+
+// c42b
+  ,// c43a
+  // c43b
+    repeat  // c44
+  i16 
+    // c45
+  seqNo, 
+    // c47
+	@rightPad
+
+(
+	    // c49
+    	'\x00' 
+)  // c51
+char[  
+      // c52
+	  5
+// c53
+    	] 
+Tail // c55a
+  // c55b
+		,	// c56a
+
+	// c56b
+	Reject  , 	 // c58
+    f64 // c59a
+// c59b
+clOrdID ,}packet 
+	// c63
+	Heartbeat // c64
+  	{
+	repeat// c66a
+  // c66b
+    Order 	 // c67a
+    	// c67b
+, // c68
+
+  zchar[  // c69
+    8// c70
+] 	 // c71
+
+	Tail  
+  // c72
+  , // c73a
+
+// c73b
+  }root
+packet
+Fill
+
+    { // c78a
+// c78b
+  repeat	// c79a
+    // c79b
+		Order  // c80a
+  	// c80b
+    	,
+
+    repeat	// c82
+	string
+        // c83
+
+	lastPx// c84a
+	// c84b
+    ,
+    // c85
+    	} // c86
  
 ")).
-Eval vm_compute in ("<<<M1663>>>" ++ check (runes_of_ascii "MetaData M {
-    u8 x `a
-        b`,
-    T t `a
-        b`,
-}")).
-Eval vm_compute in ("<<<M1649>>>" ++ check (runes_of_ascii "packet float {
+Eval vm_compute in ("<<<M181>>>" ++ check (runes_of_ascii "MetaData int{ }packet T
+    {char[ 65535 ]	options1
+, @calculatedFrom(
+    ""// no comment"" ) // " ++ [128512]%N ++ runes_of_ascii " emoji
+leftPad { match
+zchar as	charz  { [
+    7 ,
+0123456789 ,
+    //
+    007,
+    3 ,0123456789] // " ++ [128512]%N ++ runes_of_ascii " emoji
+: pack ,
+}
+    , } , @tag( 255 ) uint64 string_	@lengthOf( matchKey ) `{ , }` , @lengthOf( Pad
+    /// triple
+    ) repeat matchKey x_y_z , match body as f32a { """ ++ [28040; 24687]%N ++ runes_of_ascii """ : u} ,uint16 As @calculatedFrom(""CRC32"" ) , zchar {//	t
+u8 lengthOf ,} ,
+    }
+packet
+    BodyLength { matchKey { repeat string falsey,
+    // " ++ [27880; 37322]%N ++ runes_of_ascii "
+    } , packetx  @calculatedFrom(""// no comment"" )
+    ,falsey
+// packet A { u8 x, }
+// packet A { u8 x, }
+{ Packet
+A , uint16
+    u@calculatedFrom(""a\""b""
+)
+,//x
+f32 charz @lengthOf( u ) `u8 x,`  ,// @lengthOf(
+},
+@leftPad// " ++ [27880; 37322]%N ++ runes_of_ascii "
+( '\x00' )
+    options1
+    ,
+@rightPad (
+    '0'
+    ) repeatCount{  repeat u8
+body ,
+    }// " ++ [128512]%N ++ runes_of_ascii " emoji
+,
+metadata @lengthOf(	chars
+)
+`a\`
+, @rightPad ( )@lengthOf( Pad )
+    @calculatedFrom( ""abc"") float ,  @calculatedFrom(
+""" ++ [128512]%N ++ runes_of_ascii """) zchar[
+007]
+A ,
+// 50% %s
+// 50% %s
+string Pad// @lengthOf(
+`line1
+line2` ,
+} packet
+MetaDataX{
+    //
+    repeat string As`a\` , } packet// a // b
+As { string repeatCount @lengthOf(
+    Header
+)
+    ,repeat stringy
+    `tab	here`
+// 50% %s
+// @lengthOf(
+,}
+")).
+Eval vm_compute in ("<<<M3717>>>" ++ check (runes_of_ascii "
+packet	metadata {
+
+char[ // trailing space 
+  4294967296
+
+]
+	a1 // " ++ [27880; 37322]%N ++ runes_of_ascii "
+,}
+packet
+BodyLength
+	{ trueish,
+char[00 
+]
+
+Logon	// " ++ [128512]%N ++ runes_of_ascii " emoji
+
+	@lengthOf(
+
+    As
+	// " ++ [128512]%N ++ runes_of_ascii " emoji
+// 50% %s
+
+  ) ,
+repeat
+
+    uint32	u8x	// 50% %s
+, char[]
+
+    len
+@lengthOf( 	 /// triple
+	i8i8
+
+    )
+,packetx chars
+	, 
+    // packet A { u8 x, }
+    string 
+Packet @calculatedFrom( ""a	b""
+),match len
+as
+msg_type
+{
+
+[
+	42	]
+
+    :x
+    ,
+},chars 
+{	u128 
+asx
+, }, i32
+
+As
+	@calculatedFrom(
+""a	b""  ) , repeat repeatCount 
+
+// " ++ [27880; 37322]%N ++ runes_of_ascii "
+{
+
+repeat u8x 
+{
+	char[]_x
+	`crlf
+line`
+	, match 
+f32a  as  //	t
+	i8i8
+    {
+
+    [/// triple
+  007
+
+    ,
+4294967296
+    ,  """ ++ [28040; 24687]%N ++ runes_of_ascii """ 
+,  // packet A { u8 x, }
+  ""a	b"" 	 // packet A { u8 x, }
+    ,""// no comment"" ,
+
+    ""a\""b"",
+	    // trailing space 
+	//
+  ""CRC32"",
+7 ]
+: Foo
+    0123456789
+:Header,""it's""
+    :
+u 65535:
+Foo
+,
+
+    65535 : 
+
+/// triple
+      //x
+    stringy
+
+,
+	255
+:f32a
+    , //	t
+
+},
+
+match
+
+A
+    //	t
+	as	u128
+
+    {
+	10 
+:
+chars
+
+""{,}"" : i64_ ""\n"" ://	t
+	o  ,""{,}""
+
+    :
+
+x_y_z// 50% %s
+	,  [ 0123456789 
+,
+
+""" ++ [28040; 24687]%N ++ runes_of_ascii """	] :
+a1
+
+,
+	},
+
+    }
+,
+A@lengthOf( 
+    // " ++ [27880; 37322]%N ++ runes_of_ascii "
+  u8x
+
+)
+	,
+}
+,
+	}
+
+")).
+Eval vm_compute in ("<<<M4009>>>" ++ check (runes_of_ascii "root packet Packet {
+    char i64_,
+    match crc as trueish {
+        007 : pack,
+        [""a\\"", 255] : a1,
+        // packet A { u8 x, }
+    },
+    MetaDataX {
+        char[1] Z9_ `100% of %d`,
+    },
+    @calculatedFrom(""a	b"")
+    @tag(3)
+    @tag(42)
+    match stringy as calculatedFrom {
+        """ ++ [233]%N ++ runes_of_ascii "t" ++ [233]%N ++ runes_of_ascii """ : Z9_,
+        ""\n"" : uint8x,
+        [""x y"", ""packet"", ""it's""] : repeatCount,
+    },
+    @tag(65535)
+    int16 x `doc`,
+    @leftPad('0')
+    char[] options1,// 50% %s
+    match len as As {
+        [
+            ""x y"", 00, ""it's"", ""1"", 10,
+            ""`tick`"", ""// no comment""
+        ] : crc,
+        3 : T,
+    },
+}
+
+options {
+    calculatedFrom = f64
+    calculatedFrom = '\x00';
+    zchar = f32;
+}
+
+packet lengthOf {
+    i8 leftPad,
+    i8 uint8x @calculatedFrom(""packet"") `100% of %d`,
+    @calculatedFrom("""")
+    @tag(007)
+    char[10] T @calculatedFrom(""""),
+    u8x {
+        // " ++ [128512]%N ++ runes_of_ascii " emoji
+        zchar @lengthOf(u) `100% of %d`,
+    },
+    float `" ++ [233]%N ++ runes_of_ascii "`,
+    i64 packetx,
+    @lengthOf(BodyLength)
+    string calculatedFrom,
+    repeat zchar[00] roots,
+}
+
+packet T {
+}
+//x")).
+Eval vm_compute in ("<<<M3559>>>" ++ check (runes_of_ascii "options {
+    o = zchar[0];
+    // 50% %s
+    leftPad = '0';
+    charz = ""packet"";
+    zchar = i32;
+    u8x = true
 }
 
 MetaData As {
-    char[] trueish,
+    char[0] As `100% of %d`,
+    i64 charz,
+    tag len `tab	here`,//
+    Logon leftPad `it's`,
+    char[] x `crlf
+    line`,
 }
-// " ++ [27880; 37322]%N)).
-Eval vm_compute in ("<<<M1704>>>" ++ check (runes_of_ascii "packet x {
-    @rightPad()
-    repeat roots Logon `doc`,
+
+root packet _x {
+}
+
+packet Header {
+    @leftPad('\x00')
+    Header @lengthOf(metadata) `" ++ [28040; 24687; 31867; 22411]%N ++ runes_of_ascii "`,
+}
+
+root packet f32a {
+    @lengthOf(int)
+    repeat Foo {
+        u32 i64_,
+    },
+    Packet @lengthOf(tag) `u8 x,`,
+    @calculatedFrom(""" ++ [233]%N ++ runes_of_ascii "t" ++ [233]%N ++ runes_of_ascii """)
+    @calculatedFrom(""a	b"")
+    char[] lengthOf `{ , }`,// a // b
+    repeat int16 falsey `
+    `,
+    _x u128,
+    @lengthOf(pack)
+    repeat int32 trueish `100% of %d`,// " ++ [27880; 37322]%N ++ runes_of_ascii "
+    @lengthOf(i64_)
+    match A as x_y_z {
+        // @lengthOf(
+        [
+            """ ++ [28040; 24687]%N ++ runes_of_ascii """, 0123456789, 0, 7, 65535,
+            ""{,}""
+        ] : options1,
+        ""`tick`"" : uint8x,
+        ""packet"" : charz,
+    },
+    @tag(0123456789)
+    char[10] roots @lengthOf(a1),
+    f64 asx @calculatedFrom(""a	b""),
+    u8 lengthOf @calculatedFrom(""\" ++ [233]%N ++ runes_of_ascii """),
 }")).
-Eval vm_compute in ("<<<M772>>>" ++ check (runes_of_ascii "packet A { Inner { match k as n { [1] : B, }, }, }")).
-Eval vm_compute in ("<<<M1924>>>" ++ check (runes_of_ascii "MetaData	packetx	{ zchar[ 7 
-]  u128
-    ,	}
-")).
-Eval vm_compute in ("<<<M2031>>>" ++ check (runes_of_ascii "packet	A 
-{ u8 x`d" ++ [12]%N ++ runes_of_ascii "`
-
-    ,	// c" ++ [12]%N ++ runes_of_ascii "
-  }
-
-")).
-Eval vm_compute in ("<<<M1861>>>" ++ check (runes_of_ascii "packet
-    A	{ u8  x `d" ++ [8233]%N ++ runes_of_ascii "` , // c" ++ [8233]%N ++ runes_of_ascii "
-}
-
-")).
-Eval vm_compute in ("<<<M1735>>>" ++ check (runes_of_ascii "  root // c
-
-packet 
-pack  { 
-}
-")).
-Eval vm_compute in ("<<<M1013>>>" ++ check (runes_of_ascii "packet A {
- u8 x `d" ++ [8233]%N ++ runes_of_ascii "`, // c" ++ [8233]%N ++ runes_of_ascii "
-}")).
-Eval vm_compute in ("<<<M1836>>>" ++ check (runes_of_ascii "
+Eval vm_compute in ("<<<M4293>>>" ++ check (runes_of_ascii "
 
   packet
-    float
-{
-} ")).
-Eval vm_compute in ("<<<M171>>>" ++ check (runes_of_ascii "packet options1 {  }
+A {
+@tag( 0)match
+	repeatCount as zchar  {[ 
+0	// c
+	, 3,
+
+    ""a\\""  //x
+    ,
+00	]  :f32a} ,}
+
+    packet
+    matchKey	{  x_y_z `line1
+line2`
+
+,
+
+    @rightPad 
+(
+	) @rightPad ( )float32
+
+    rootA ,
+
+    u32	MetaDataX
+
+    @calculatedFrom(	""1"" 
+) ,repeat
+
+asx
+	{
+
+repeat
+u16
+	pack
+,
+    calculatedFrom a1
+
+`line1
+line2` ,repeat// `tick` ""quote"" 'q'
+	char[ 
+7  ]
+As
+
+``  ,
+
+    }  // packet A { u8 x, }
+    , 
+@lengthOf(
+    u8x
+)
+
+    float32 // c
+	  asx 
+`" ++ [233]%N ++ runes_of_ascii "`  // trailing space 
+  ,  uint64
+options1
+@lengthOf(matchKey  ) 
+`100% of %d`
+    ,
+    match
+    i8i8
+
+    as  chars {
+42 	 // `tick` ""quote"" 'q'
+	:
+	Foo	,
+	}  , 
+Packet  _x
+`u8 x,`  ,@tag(
+	0 ) u64  Packet  @lengthOf(
+    asx )	// " ++ [128512]%N ++ runes_of_ascii " emoji
+`// not a comment`
+
+    , 
+@rightPad (  )  match
+    falsey 
+as
+	As 
+{	""a\""b"":_x
+
+,
+
+    ""a\\"":
+    crc ,
+    ""a\\""
+: 
+      /// triple
+  	metadata
+
+, 
+[
+	""""
+, 255 ,	""" ++ [128512]%N ++ runes_of_ascii """
+
+    ] 
+:  
+  // @lengthOf(
+  falsey	},
+}
+")).
+Eval vm_compute in ("<<<M763>>>" ++ check (runes_of_ascii "  root packet
+msg_type { } packet calculatedFrom{
+// " ++ [128512]%N ++ runes_of_ascii " emoji
+// " ++ [27880; 37322]%N ++ runes_of_ascii "
+repeat int32	Pad ,
+    //
+    }
+MetaData
+// c
+//
+Header { char[	65535
+    ]As
+    ,char[ 65535// 50% %s
+]
+A `tab	here`
+,
+    //
+    char[ 0 ]
+metadata, string// @lengthOf(
+Pad , }
+    options {crc	=
+""a\""b""
+;
+options1 = ""// no comment"";
+} packet Pad {
+    repeat/// triple
+u8 i64_ , @tag( 255 ) i64 BodyLength ,
+    @tag( 0 ) repeat BodyLength u `doc`
+, match
+    BodyLength as zchar {65535: metadata ,
+    00 : MetaDataX ,
+7 :
+roots """" : As
+    , 007:
+    _x , [	""" ++ [233]%N ++ runes_of_ascii "t" ++ [233]%N ++ runes_of_ascii """
+, ""it's"",
+3,
+""" ++ [128512]%N ++ runes_of_ascii """ ,3 , 007
+] :stringy
+,} ,
+repeat tag float ,// packet A { u8 x, }
+@tag(
+    // " ++ [27880; 37322]%N ++ runes_of_ascii "
+    0 )
+    @rightPad (
+'0'
+    ) repeat//x
+Z9_{
+    char[]
+lengthOf
+@calculatedFrom(""\" ++ [233]%N ++ runes_of_ascii """ )
+`100% of %d`,  repeat zchar[ 255 ]  i8i8
+/// triple
+// `tick` ""quote"" 'q'
+`u8 x,`
+    ,repeat	i16 falsey `` , char[ 10 ]
+    stringy , }
+// @lengthOf(
+// trailing space 
+,
+u16 int , }
+")).
+Eval vm_compute in ("<<<M1345>>>" ++ check (runes_of_ascii "packet uint8x // @lengthOf(
+{ match MetaDataX
+    as T	{0123456789 : options1 , } , zchar[ //x
+255
+] x_y_z ,
+    @lengthOf( Logon ) char[ 255 // a // b
+]
+    x `" ++ [233]%N ++ runes_of_ascii "` ,match Logon as
+pack{
+    ""packet""
+: tag ,} , int@calculatedFrom(""" ++ [233]%N ++ runes_of_ascii "t" ++ [233]%N ++ runes_of_ascii """) `" ++ [28040; 24687; 31867; 22411]%N ++ runes_of_ascii "`, char[ 255 ]
+    trueish
+@calculatedFrom(""a\""b"" ) ,zchar , } options {a1 = zchar[
+7
+    ]
+// @lengthOf(
+// a // b
+;
+//	t
+// packet A { u8 x, }
+}
+    options { }
+options{ //x
+matchKey = ""it's"" ; } packet calculatedFrom // " ++ [27880; 37322]%N ++ runes_of_ascii "
+{ char[] u8x
+    @calculatedFrom(
+""" ++ [233]%N ++ runes_of_ascii "t" ++ [233]%N ++ runes_of_ascii """ ) ,
+@tag( 0123456789
+)	@tag(	4294967296 ) int64 a1
+// trailing space 
+//	t
+, @lengthOf(	stringy //	t
+)
+As , @lengthOf(
+pack )	u16 u128// 50% %s
+@calculatedFrom( ""a	b"" )
+`u8 x,`
+, MetaDataX
+// a // b
+//
+@lengthOf( u8x)	`crlf
+line` ,
+    @tag( // 50% %s
+0 ) repeat
+// 50% %s
+//x
+charz	,
+    float@lengthOf( As
+    )
+    //
+    `{ , }`
+    , }
+// 50% %s
+")).
+Eval vm_compute in ("<<<M713>>>" ++ check (runes_of_ascii "packet A
+{@tag( 0) match repeatCount as zchar {[ 0 // c
+,3  , ""a\\"" //x
+,00 ]  : f32a }
+,
+    }
+packet matchKey	{ x_y_z`line1
+line2` , @rightPad ()	@rightPad  ( )
+float32 rootA, u32 MetaDataX@calculatedFrom( ""1"")
+    ,
+repeat	asx { repeat
+u16  pack
+    ,calculatedFrom a1 `line1
+line2`
+,
+    repeat // `tick` ""quote"" 'q'
+char[ 7 ] As `` ,
+} // packet A { u8 x, }
+, @lengthOf( u8x) float32 // c
+asx `" ++ [233]%N ++ runes_of_ascii "`// trailing space 
+,
+    uint64 options1 @lengthOf( matchKey ) `100% of %d`, match i8i8 as chars
+{	42// `tick` ""quote"" 'q'
+: Foo
+    ,
+} ,
+    Packet
+_x `u8 x,` ,
+@tag(
+    0
+)	u64 Packet @lengthOf( asx
+) // " ++ [128512]%N ++ runes_of_ascii " emoji
+`// not a comment`  , @rightPad
+( ) match
+falsey as As {
+    ""a\""b"" : _x
+    ,	""a\\""
+:
+crc
+, ""a\\"" :
+    /// triple
+    metadata, [""""
+    ,	255,""" ++ [128512]%N ++ runes_of_ascii """ ] :
+    // @lengthOf(
+    falsey }
+    , }
+")).
+Eval vm_compute in ("<<<M3688>>>" ++ check (runes_of_ascii "
+packet
+
+    repeatCount
+
+{ char[ 
+00  ]
+
+uint8x  ,
+    // a // b
+    @calculatedFrom(
+    ""a\\""
+    )	asx @lengthOf(	charz 
+)
+
+,}
+
+    packet
+	string_{ @calculatedFrom( ""it's""
+    )repeat
+        // 50% %s
+
+//
+    char[]BodyLength ,	@calculatedFrom( ""abc""  ) 
+int32
+x, @tag(
+    255 )	@calculatedFrom(
+""" ++ [28040; 24687]%N ++ runes_of_ascii """
+    ) @tag( 0123456789
+) char[65535 // `tick` ""quote"" 'q'
+		] len	,@tag( 0123456789 )
+
+@lengthOf(stringy
+)
+
+int
+    /// triple
+	/// triple
+    	,@tag(
+// `tick` ""quote"" 'q'
+//	t
+  65535 )MetaDataX	{	A
+`it's` ,
+
+    float64
+options1@calculatedFrom( ""// no comment""	),
+    }
+    , @rightPad
+	('\x00')zchar[	007 ]
+rootA@lengthOf( lengthOf  )
+`" ++ [28040; 24687; 31867; 22411]%N ++ runes_of_ascii "`
+/// triple
+
+  // @lengthOf(
+	,
+
+    @lengthOf( 
+crc
+) repeat string 
+charz
+, @tag( 
+1
+	)repeat	a1 ,
+
+    }
 
 ")).
-Eval vm_compute in ("<<<M149>>>" ++ check (runes_of_ascii "packet	crc
-    { }")).
-Eval vm_compute in ("<<<M1047>>>" ++ check (runes_of_ascii "// c" ++ [65279]%N ++ runes_of_ascii "
+Eval vm_compute in ("<<<M3433>>>" ++ check (runes_of_ascii "// top
+packet // c0a
+  // c0b
+P1 // c1
+{ // c2
+u8 a // c4
+, // c5
+} packet
+    // c7
+P2 // c8
+{ // c9
+P1 // c10a
+  // c10b
+,
+    // c11
+} // c12
+packet P3 // c14
+{ P2
+    // c16
+,
+    // c17
+P1
+    // c18
+, // c19
+}
+    // c20
+packet // c21
+P4 // c22a
+  // c22b
+{ // c23a
+  // c23b
+repeat P3
+    // c25
+, P2 // c27a
+  // c27b
+, // c28a
+  // c28b
+} root // c30
+packet // c31
+P5 // c32a
+  // c32b
+{
+    // c33
+P4 , // c35
+P3 , P1 // c38a
+  // c38b
+, u8 K , // c42
+match K // c44
+as // c45a
+  // c45b
+Body { // c47a
+  // c47b
+4 : P4 // c50a
+  // c50b
+, 3 // c52a
+  // c52b
+: // c53a
+  // c53b
+P3 // c54a
+  // c54b
+, 2 // c56
+: // c57a
+  // c57b
+P2 // c58
+, 1
+    // c60
+:
+    // c61
+P1 // c62a
+  // c62b
+,
+    // c63
+} // c64a
+  // c64b
+,
+    // c65
+} // c66
+")).
+Eval vm_compute in ("<<<M1184>>>" ++ check (runes_of_ascii "packet leftPad {options1/// triple
+{ zchar[
+0123456789]roots `100% of %d`
+    , }
+, @calculatedFrom(
+""a\\"" ) match // 50% %s
+a1	as msg_type {
+[ 10 , ""packet""
+// @lengthOf(
+// " ++ [128512]%N ++ runes_of_ascii " emoji
+, ""x y""
+, ""a	b"" ,  ""packet""
+    ,
+42 ,
+""{,}""  , ""\n""
+    // @lengthOf(
+    ] :Logon
+,4294967296 :
+    options1	,3 : string_ , """ ++ [28040; 24687]%N ++ runes_of_ascii """:
+i64_ , """ ++ [233]%N ++ runes_of_ascii "t" ++ [233]%N ++ runes_of_ascii """: stringy// packet A { u8 x, }
+, 42
+: x_y_z} ,
+@lengthOf(As)char[] T , lengthOf {
+    uint64// " ++ [128512]%N ++ runes_of_ascii " emoji
+charz @lengthOf( falsey )`` ,match
+Pad as A  {  [4294967296 , //
+""a\""b""] : tag ""\" ++ [233]%N ++ runes_of_ascii """ : uint8x
+    // trailing space 
+    ""{,}"" : lengthOf , [ ""it's"" ,""a	b""
+    ] : i64_
+    , [  0
+    ]
+    :
+u128
+,
+}, }
+    ,
+msg_type i64_, repeat
+// @lengthOf(
+// @lengthOf(
+zchar[
+    4294967296 ]
+float , }
+")).
+Eval vm_compute in ("<<<M403>>>" ++ check (runes_of_ascii "// @lengthOf(
+root packet T{//
+@rightPad(' ' ) @leftPad ('0' ) leftPad// packet A { u8 x, }
+, @leftPad ( ) int falsey , @calculatedFrom( ""// no comment"")char[
+0123456789 ]calculatedFrom @calculatedFrom( ""packet"" )
+    `" ++ [233]%N ++ runes_of_ascii "` , }  root packet
+float { char[
+4294967296 ] uint8x,
+string u , @lengthOf( Pad)
+    i32 lengthOf
+    // " ++ [27880; 37322]%N ++ runes_of_ascii "
+    ,
+@calculatedFrom( // c
+""abc"" ) x_y_z  {zchar[ 0
+]	body@calculatedFrom( ""1""  )
+    ,
+float64 packetx
+    @calculatedFrom(
+"""" )
+`crlf
+line`	, match body
+as tag
+{ 00:
+    //
+    chars,
+    },
+    repeat  tag
+{ int8	MetaDataX`u8 x,` , } // a // b
+, }
+    , @tag(
+    7	)string int @calculatedFrom(  ""it's"" ) ,// c
+@lengthOf( Z9_ ) zchar[ 42]packetx`it's`, }
+")).
+Eval vm_compute in ("<<<M502>>>" ++ check (runes_of_ascii "packet o {
+repeat
+    calculatedFrom { As
+    ,repeat
+u {//	t
+i32 repeatCount
+, }, match BodyLength
+as u8x { 007 :
+trueish }
+, asx float  `two words`
+, }
+    , match pack as// `tick` ""quote"" 'q'
+calculatedFrom {""it's"" :	Foo,
+// 50% %s
+// @lengthOf(
+}
+, match body as
+    calculatedFrom	{	[
+    // 50% %s
+    ""a\""b"" ] :	o , 42
+    :	Packet
+    , //
+[ 0123456789 ,1	, ""1""
+] : float
+,}
+,
+    } MetaData
+i64_	{u128
+    //x
+    crc
+    `` , // c
+string_ u ,i8 int
+    `doc`,
+    // " ++ [27880; 37322]%N ++ runes_of_ascii "
+    i16 x	`doc`, falsey
+/// triple
+//
+f32a,	} options {	roots //x
+=
+zchar[
+4294967296 ] ;  x
+=
+    65535 ; crc =	zchar[
+    // " ++ [27880; 37322]%N ++ runes_of_ascii "
+    7 ] ; metadata= char[]
+; leftPad
+    =
+i32 }")).
+Eval vm_compute in ("<<<M4397>>>" ++ check (runes_of_ascii "packet calculatedFrom {
+    @lengthOf(pack)
+    zchar @lengthOf(Z9_) `a\`,// 50% %s
+    @calculatedFrom(""it's"")
+    leftPad,
+    trueish,// " ++ [128512]%N ++ runes_of_ascii " emoji
+    @calculatedFrom(""{,}"")
+    float32 string_ @calculatedFrom(""1"") `tab	here`,
+}
+
+packet u8x {
+    match Header as roots {
+        [
+            """ ++ [28040; 24687]%N ++ runes_of_ascii """, ""\" ++ [233]%N ++ runes_of_ascii """, 65535, 0, 10,
+            65535, ""\n""
+        ] : metadata,
+        [""// no comment"", ""{,}"", 0, ""\n"", 3] : i8i8,
+    },
+    match trueish as stringy {
+        ""CRC32"" : repeatCount,
+        // a // b
+        //	t
+        [
+            ""1"", ""a\\"", ""a\\"", 007, 10,
+            ""1"", 007
+        ] : repeatCount,
+        ""\" ++ [233]%N ++ runes_of_ascii """ : msg_type,
+    },
+}")).
+Eval vm_compute in ("<<<M4346>>>" ++ check (runes_of_ascii "packet BodyLength {
+    @tag(255)
+    o @calculatedFrom(""""),
+    zchar[1] crc @lengthOf(BodyLength),
+    repeat zchar `100% of %d`,
+    u64 Foo,
+    @rightPad('\x00')
+    @lengthOf(falsey)
+    int64 trueish @lengthOf(chars) `say ""hi""`,
+    int @calculatedFrom(""a	b"") `u8 x,`,
+    match repeatCount as repeatCount {
+        42 : msg_type,
+        [""a	b"", 42] : Logon,
+        ""packet"" : uint8x,
+        7 : u8x,
+        // a // b
+        ""\" ++ [233]%N ++ runes_of_ascii """ : metadata,
+    },
+    @leftPad(' ')
+    match charz as _x {
+        [""" ++ [233]%N ++ runes_of_ascii "t" ++ [233]%N ++ runes_of_ascii """, ""abc""] : Packet,
+        ""a\""b"" : MetaDataX,
+        [""CRC32"", ""// no comment""] : uint8x,
+    },
+}")).
+Eval vm_compute in ("<<<M1290>>>" ++ check (runes_of_ascii "MetaData
+crc { } // c
+packet
+// `tick` ""quote"" 'q'
+// " ++ [128512]%N ++ runes_of_ascii " emoji
+Header {	calculatedFrom matchKey	`" ++ [233]%N ++ runes_of_ascii "` ,
+    @leftPad('\x00' ) i64// a // b
+Logon,
+    @tag(
+0 ) char[4294967296] i8i8, @tag( 255 ) char zchar//	t
+@calculatedFrom( ""// no comment""
+) ,  @lengthOf( asx//
+) float
+,
+@calculatedFrom( """ ++ [28040; 24687]%N ++ runes_of_ascii """	)
+repeat int32 As//	t
+, zchar `" ++ [28040; 24687; 31867; 22411]%N ++ runes_of_ascii "` // c
+, // @lengthOf(
+u32 _x@calculatedFrom( ""a\\"" ) `u8 x,` , @calculatedFrom(	""\n""
+)	char[] BodyLength// 50% %s
+`" ++ [233]%N ++ runes_of_ascii "`
+, }
+root
+    packet chars{ zchar[  00]
+Z9_	, }	options {i8i8 = 10 A=
+//
+// " ++ [27880; 37322]%N ++ runes_of_ascii "
+' '
+//	t
+//	t
+;float = '0' msg_type = ""x y""
+; leftPad = ' ' ;}
+")).
+Eval vm_compute in ("<<<M3990>>>" ++ check (runes_of_ascii "root packet lengthOf {
+    repeat float {
+        int32 crc @calculatedFrom(""{,}""),
+        match chars as _x {
+            00 : crc,
+            [""a\""b"", 10, 255] : chars,
+            0123456789 : crc,
+        },//x
+        match Foo as roots {
+            ""a\\"" : string_,
+            007 : u8x,
+            [""" ++ [128512]%N ++ runes_of_ascii """, ""it's""] : MetaDataX,
+            [4294967296, 0123456789, 10] : crc,
+            [""a\\"", 7] : trueish,
+            [10, 1] : string_,
+        },
+    },
+}
+
+packet f32a {
+    // @lengthOf(
+    @leftPad()
+    @tag(7)
+    @lengthOf(T)
+    repeat packetx x_y_z,
+}")).
+Eval vm_compute in ("<<<M3757>>>" ++ check (runes_of_ascii "root
+	packet
+	MetaDataX
+	{ 
+	/// triple
+  	//
+      repeat	f64 chars
+	`// not a comment`
+    ,@tag(  4294967296 )  Pad
+,
+u8	body	,	// `tick` ""quote"" 'q'
+      u// c
+
+@lengthOf(
+	i8i8	)
+    `line1
+line2` ,  /// triple
+    @lengthOf(
+int
+    )
+	@lengthOf(	pack
+)
+u  ,
+
+@tag(  00
+
+    )  repeat// a // b
+    f32 
+crc
+    `tab	here`  , match body  as
+
+    i64_
+
+    {  // c
+
+  0	:
+
+A  ,7
+    :
+    a1 
+,}	,
+
+@calculatedFrom( ""`tick`""	)
+	@calculatedFrom(  //x
+""a	b""	) char[ 65535 
+] asx @calculatedFrom(	""" ++ [233]%N ++ runes_of_ascii "t" ++ [233]%N ++ runes_of_ascii """
+
+)
+`two words`	// " ++ [128512]%N ++ runes_of_ascii " emoji
+  ,
+}
+
+")).
+Eval vm_compute in ("<<<M3332>>>" ++ check (runes_of_ascii "// top
+options // c0
+{ // c1
+msg_type // c2
+= // c3
+255 // c4
+o // c5
+= // c6
+'\x00' // c7
+; // c8
+x_y_z // c9
+= // c10
+""abc"" // c11
+; // c12
+int // c13
+= // c14
+00 // c15
+; // c16
+body // c17
+= // c18
+""\" ++ [233]%N ++ runes_of_ascii """ // c19
+; // c20
+} // c21
+MetaData // c22
+BodyLength // c23
+{ // c24
+repeatCount // c25
+metadata // c26
+`a\` // c27
+, // c28
+f64 // c29
+float // c30
+`tab	here` // c31
+, // c32
+zchar[ // c33
+4294967296 // c34
+] // c35
+metadata // c36
+`" ++ [233]%N ++ runes_of_ascii "` // c37
+, // c38
+zchar[ // c39
+255 // c40
+] // c41
+float // c42
+, // c43
+} // c44
+")).
+Eval vm_compute in ("<<<M1285>>>" ++ check (runes_of_ascii "packet
+tag { rootA @lengthOf(
+    // 50% %s
+    matchKey ) `{ , }` , @calculatedFrom( ""abc"")
+/// triple
+//	t
+T
+x
+`" ++ [233]%N ++ runes_of_ascii "`
+, @calculatedFrom( ""packet"" )
+char[// `tick` ""quote"" 'q'
+10 ] uint8x `tab	here`
+, crc float , @leftPad
+    (
+' '
+)
+    // trailing space 
+    repeat i8i8 {
+    // trailing space 
+    match len as packetx
+    {//x
+""\n""
+    //
+    : a1
+,4294967296 :	falsey , 65535:o ,} // `tick` ""quote"" 'q'
+,}// 50% %s
+, @leftPad (
+    '0')
+/// triple
+//
+u64 matchKey @lengthOf(lengthOf )  , }")).
+Eval vm_compute in ("<<<M3614>>>" ++ check (runes_of_ascii "packet T {
+    f32a {
+        a1,
+    },
+    zchar[7] stringy `100% of %d`,// `tick` ""quote"" 'q'
+}
+
+options {
+}
+
+packet A {
+    @rightPad()
+    @lengthOf(lengthOf)
+    @tag(1)
+    T @calculatedFrom(""a\""b"") ``,
+    Header,
+    @tag(4294967296)
+    options1 {
+        char[] A `{ , }`,
+        match Z9_ as rootA {
+            [3, """ ++ [233]%N ++ runes_of_ascii "t" ++ [233]%N ++ runes_of_ascii """] : Logon,
+        },
+        options1 Header `" ++ [233]%N ++ runes_of_ascii "`,
+        repeat f64 MetaDataX `it's`,
+    },
+    // trailing space 
+    float64 BodyLength,
+}")).
+Eval vm_compute in ("<<<M523>>>" ++ check (runes_of_ascii "
+packet calculatedFrom { } options { leftPad = true	Pad=true pack
+=int64
+    ; calculatedFrom=
+'0' ; stringy
+= false } MetaData As { calculatedFrom u8x,
+} root
+    packet	charz{ }packet
+// `tick` ""quote"" 'q'
+// 50% %s
+calculatedFrom {
+    @calculatedFrom( ""\" ++ [233]%N ++ runes_of_ascii """
+)@leftPad
+    // " ++ [128512]%N ++ runes_of_ascii " emoji
+    ( )
+repeat char[
+3] chars `// not a comment`, // @lengthOf(
+match packetx // " ++ [128512]%N ++ runes_of_ascii " emoji
+as	MetaDataX { ""a	b"" :
+As , [
+    //	t
+    255 , 42
+] :len
+    , } , }
+// " ++ [27880; 37322]%N ++ runes_of_ascii "
+")).
+Eval vm_compute in ("<<<M911>>>" ++ check (runes_of_ascii "  packet len//	t
+{ repeat o { //
+zchar[ 0]  lengthOf `u8 x,` ,
+leftPad
+    { lengthOf x`doc`
+    ,	zchar[ 65535
+] u @lengthOf(asx
+),repeat
+u8 u`tab	here` , }
+,
+    //
+    },
+} root packet
+packetx // packet A { u8 x, }
+{
+// " ++ [27880; 37322]%N ++ runes_of_ascii "
+// @lengthOf(
+}
+root packet Logon
+{ zchar[00 ] leftPad	@lengthOf( repeatCount	) , crc packetx
+    // a // b
+    `
+`
+    , x
+    @lengthOf( pack /// triple
+) `tab	here` /// triple
+, lengthOf Header, }
+")).
+Eval vm_compute in ("<<<M3237>>>" ++ check (runes_of_ascii "// top
+packet // c0
+roots // c1
+{ // c2
+@lengthOf( // c3
+Pad // c4
+) // c5
+char[ // c6
+4294967296 // c7
+] // c8
+options1 // c9
+@calculatedFrom( // c10
+""`tick`"" // c11
+) // c12
+, // c13
+lengthOf // c14
+, // c15
+@tag( // c16
+7 // c17
+) // c18
+repeat // c19
+T // c20
+, // c21
+@calculatedFrom( // c22
+""a	b"" // c23
+) // c24
+char[] // c25
+Packet // c26
+@lengthOf( // c27
+_x // c28
+) // c29
+`doc` // c30
+, // c31
+} // c32
+")).
+Eval vm_compute in ("<<<M3377>>>" ++ check (runes_of_ascii "// top
+packet // c0
+B
+    // c1
+{ u8 // c3
+a
+    // c4
+,
+    // c5
+} // c6
+root
+    // c7
+packet // c8a
+  // c8b
+P { // c10a
+  // c10b
+u8 // c11
+K , match K
+    // c15
+as // c16
+Body
+    // c17
+{ // c18
+1 // c19
+: B // c21a
+  // c21b
+,
+    // c22
+} // c23a
+  // c23b
+, // c24a
+  // c24b
+u16 // c25
+L // c26
+@lengthOf( // c27a
+  // c27b
+Body
+    // c28
+) // c29a
+  // c29b
+,
+    // c30
+} // c31a
+  // c31b
+")).
+Eval vm_compute in ("<<<M4425>>>" ++ check (runes_of_ascii "// `tick` ""quote"" 'q'
+    options
+	{
+rootA
+= 
+false // @lengthOf(
+	  _x  =
+""packet""packetx =
+    zchar[
+
+    7	// packet A { u8 x, }
+	];	} packet
+	a1 {
+    @rightPad(
+' ' )
+	u64
+
+    As
+
+    ,string
+
+    u 
+,char  roots
+
+@calculatedFrom( // a // b
+  """"
+)	// a // b
+	,
+    @calculatedFrom(	""""  // `tick` ""quote"" 'q'
+    )
+string	o	,
+}
+	packet
+
+Header 
+	// " ++ [27880; 37322]%N ++ runes_of_ascii "
+    	{
+    } ")).
+Eval vm_compute in ("<<<M4382>>>" ++ check (runes_of_ascii "root packet u8x {
+    @calculatedFrom("""")
+    repeat float pack,
+    repeat int32 f32a `doc`,
+}
+
+root packet Z9_ {
+    x_y_z {
+        repeat x_y_z `a\`,
+        repeat u32 x,
+        repeat leftPad `tab	here`,
+    },
+}
+
+root packet repeatCount {
+    falsey BodyLength ``,
+    char[3] calculatedFrom @calculatedFrom(""" ++ [28040; 24687]%N ++ runes_of_ascii """) ``,
+    repeat i8 As `// not a comment`,
+}")).
+Eval vm_compute in ("<<<M1245>>>" ++ check (runes_of_ascii "root packet int {
+float  A	`// not a comment` , @lengthOf(string_ )zchar[ 0123456789
+]string_  ,
+u32 body`a\`, @lengthOf( zchar )
+@calculatedFrom(// packet A { u8 x, }
+""packet""
+    ) @lengthOf( roots
+)
+matchKey
+`crlf
+line` , float32 Header	`// not a comment` , u64 asx
+    @calculatedFrom(""1"" )`tab	here`,@tag( 007 )string asx , int64	_x , } 	 ")).
+Eval vm_compute in ("<<<M1192>>>" ++ check (runes_of_ascii "packet int {
+    A { int
+{
+    zchar[// " ++ [128512]%N ++ runes_of_ascii " emoji
+0 ] pack
+@calculatedFrom( ""packet"" ) `100% of %d`
+    ,
+char[]
+trueish // a // b
+,repeat char[00
+    /// triple
+    ] crc`{ , }` , } , }
+    // 50% %s
+    , uint64 roots
+@lengthOf( rootA ) , i8 uint8x
+    //	t
+    ,
+    } packet uint8x {}
+MetaData int
+{  char[] i8i8 `two words` ,
+}
+")).
+Eval vm_compute in ("<<<M4323>>>" ++ check (runes_of_ascii "packet x_y_z {
+    float64 leftPad @lengthOf(repeatCount),
+    match msg_type as x {
+        65535 : roots,
+        4294967296 : metadata,
+    },
+}
+
+packet float {
+    u64 x_y_z ``,
+    char[7] A @lengthOf(Packet) `" ++ [233]%N ++ runes_of_ascii "`,
+    repeat o {
+        string MetaDataX `{ , }`,
+    },
+    @lengthOf(uint8x)
+    string int `it's`,
+}")).
+Eval vm_compute in ("<<<M889>>>" ++ check (runes_of_ascii "packet string_ { i8 matchKey`
+`// 50% %s
+, //x
+}MetaData // packet A { u8 x, }
+repeatCount { char[ 007  ] uint8x `{ , }`, } packet A
+{
+    T {
+    // trailing space 
+    uint8 len @lengthOf( packetx
+    ) // c
+, tag `u8 x,`
+, float32 BodyLength , crc @calculatedFrom( // packet A { u8 x, }
+""""
+    ) ,} ,}
+")).
+Eval vm_compute in ("<<<M276>>>" ++ check (runes_of_ascii "MetaData A {
+    float32
+u128
+, metadata x_y_z	,zchar[// " ++ [27880; 37322]%N ++ runes_of_ascii "
+3
+    ] zchar , u16	u8x
+    ,}
+packet Packet {
+@calculatedFrom(
+"""" ) rootA float ``  , int32 rootA, repeat	float BodyLength
+`crlf
+line` , float  @lengthOf( u128 ) , }// `tick` ""quote"" 'q'
+MetaData len { A Foo
+    `100% of %d` ,	}")).
+Eval vm_compute in ("<<<M308>>>" ++ check (runes_of_ascii "packet options1 // a // b
+{
+match leftPad as f32a{
+42
+:Foo
+    00
+:i64_ ,0 :
+    a1
+, }
+    ,
+// 50% %s
+// `tick` ""quote"" 'q'
+msg_type
+A`it's` , }
+packet repeatCount{ @leftPad (
+' ' )zchar[00 ] x `{ , }` // 50% %s
+, uint8x
+    //	t
+    @calculatedFrom(	""" ++ [28040; 24687]%N ++ runes_of_ascii """ ) , } // @lengthOf(")).
+Eval vm_compute in ("<<<M1329>>>" ++ check (runes_of_ascii "// a // b
+packet // `tick` ""quote"" 'q'
+matchKey{@leftPad
+    ( // `tick` ""quote"" 'q'
+)string
+metadata , }
+    MetaData// c
+trueish
+    { char[ 42	] As `100% of %d`, } packet tag { @lengthOf( As
+    )// " ++ [128512]%N ++ runes_of_ascii " emoji
+@leftPad // " ++ [27880; 37322]%N ++ runes_of_ascii "
+( '\x00' )
+repeat
+rootA zchar `it's` , }
+//x
+")).
+Eval vm_compute in ("<<<M1710>>>" ++ check (runes_of_ascii "// 50% %s
+packet	a1
+    { zchar[
+// a // b
+// 50% %s
+007]
+caf" ++ [233]%N ++ runes_of_ascii "_1 `it's`
+    ,@rightPad
+    // a // b
+    (
+'\x00')
+    o repeatCount , }  packet Logon {  }packet	Logon //x
+{ repeat // " ++ [128512]%N ++ runes_of_ascii " emoji
+uint16 u128
+    //
+    `a\`,
+falsey
+@calculatedFrom(""packet"" ) ,
+    } 	 ")).
+Eval vm_compute in ("<<<M1632>>>" ++ check (runes_of_ascii "// 50% %s
+packet	a1
+    { zchar[
+// a // b
+// 50% %s
+007]
+T `it's`
+    ,@rightPad
+    // a // b
+    (
+'\x00')
+    o repeatCount , }  packet Logon {  }packet	Logon //x
+{ { repeat // " ++ [128512]%N ++ runes_of_ascii " emoji
+uint16 u128
+    //
+    `a\`,
+falsey
+@calculatedFrom(""packet"" ) ,
+    } 	 ")).
+Eval vm_compute in ("<<<M1558>>>" ++ check (runes_of_ascii "// 50% %s
+packet	a1
+    { zchar[
+// a // b
+// 50% %s
+007]
+T `it's`
+    @rightPad,
+    // a // b
+    (
+'\x00')
+    o repeatCount , }  packet Logon {  }packet	Logon //x
+{ repeat // " ++ [128512]%N ++ runes_of_ascii " emoji
+uint16 u128
+    //
+    `a\`,
+falsey
+@calculatedFrom(""packet"" ) ,
+    } 	 ")).
+Eval vm_compute in ("<<<M657>>>" ++ check (runes_of_ascii "root	packet  string_  {
+    }
+MetaData tag {
+BodyLength
+    // 50% %s
+    _x , zchar[0 ]
+    //x
+    A// a // b
+`tab	here` ,//
+Packet lengthOf `u8 x,` , string
+//
+// `tick` ""quote"" 'q'
+charz
+`u8 x,` ,
+string A
+, char[
+    255 ] uint8x `// not a comment`
+, }
+")).
+Eval vm_compute in ("<<<M1328>>>" ++ check (runes_of_ascii "
+options{ body =  '0'; int =""" ++ [28040; 24687]%N ++ runes_of_ascii """ ;
+//
+// packet A { u8 x, }
+A= zchar[ 7
+    ]	;
+lengthOf
+=
+true ;}
+options	{
+i8i8 = ""a\""b"" ;
+    As	=// packet A { u8 x, }
+' ' chars= 42
+}root packet
+Logon { match roots as Packet {
+42
+:// 50% %s
+roots 3  ://
+Pad
+, }
+    , }
+")).
+Eval vm_compute in ("<<<M4390>>>" ++ check (runes_of_ascii "
+
+  packet
+o { chars
+{  u32  T
+	@lengthOf(  msg_type
+    )
+	, match Pad
+    as
+i8i8 {[
+    ""1""  ]
+
+: a1 
+, 0
+
+:
+
+A
+	,  //	t
+	007
+:  // @lengthOf(
+      roots
+
+    , 
+42 
+:_x
+
+    , 
+42
+:
+
+    body
+
+    ,} , 
+asx
+
+    `u8 x,`, }	,
+// " ++ [128512]%N ++ runes_of_ascii " emoji
+}
+
+")).
+Eval vm_compute in ("<<<M35>>>" ++ check (runes_of_ascii "MetaData Z9_ { i64_ lengthOf `" ++ [233]%N ++ runes_of_ascii "` , x_y_z uint8x  `" ++ [233]%N ++ runes_of_ascii "` , string_ //x
+chars
+// a // b
+// @lengthOf(
+, char[ 1 ] asx `crlf
+line`
+,char[
+    // `tick` ""quote"" 'q'
+    7 ]pack	,
+    uint8	body , }MetaData x
+    { string  x
+`100% of %d`
+    ,
+    }
+")).
+Eval vm_compute in ("<<<M843>>>" ++ check (runes_of_ascii "MetaData
+    msg_type { }	packet  Pad {@calculatedFrom( """ ++ [28040; 24687]%N ++ runes_of_ascii """) repeat
+char[ 7 ] T , }
+MetaData BodyLength
+{ Packet Pad , o int `crlf
+line`
+, string string_ // `tick` ""quote"" 'q'
+, BodyLength	u, int
+repeatCount , // packet A { u8 x, }
+}")).
+Eval vm_compute in ("<<<M1277>>>" ++ check (runes_of_ascii "MetaData pack // packet A { u8 x, }
+{calculatedFrom Pad,
+    o
+f32a
+`doc` , char[ 0123456789]Z9_ `line1
+line2` , string string_ `it's`,}
+options{ As =
+'0'; x_y_z= 255 ; A = ' '
+a1 = i16 ; zchar =
+    0 } MetaData crc	{ }
+
+")).
+Eval vm_compute in ("<<<M921>>>" ++ check (runes_of_ascii "root packet zchar	{ repeat lengthOf crc ,
+trueish @lengthOf(crc
+) , @rightPad( )
+    @tag(0 ) char[ 7] tag	,  }
+options  {
+    leftPad
+= ""abc"" Z9_ =
+true ; Z9_
+=
+    '\x00' repeatCount=
+    true MetaDataX
+=""it's"" ;}")).
+Eval vm_compute in ("<<<M4241>>>" ++ check (runes_of_ascii "packet calculatedFrom {
+    @rightPad('0')
+    char[1] asx,
+    @lengthOf(zchar)
+    int32 float @calculatedFrom(""""),
+    @rightPad('\x00')
+    x lengthOf,
+    @tag(7)
+    // packet A { u8 x, }
+    msg_type,
+}")).
+Eval vm_compute in ("<<<M3689>>>" ++ check (runes_of_ascii "root packet string_ {
+}
+
+MetaData tag {
+    BodyLength _x,
+    zchar[0] A `tab	here`,//
+    Packet lengthOf `u8 x,`,
+    string charz `u8 x,`,
+    string A,
+    char[255] uint8x `// not a comment`,
+}")).
+Eval vm_compute in ("<<<M158>>>" ++ check (runes_of_ascii "root packet
+a1 // " ++ [27880; 37322]%N ++ runes_of_ascii "
+{
+rootA int ,
+}  root packet
+f32a { u8 o @calculatedFrom( ""x y"" )`" ++ [28040; 24687; 31867; 22411]%N ++ runes_of_ascii "` , f64 body
+`{ , }`, @leftPad ( '\x00'
+) @leftPad (
+    ) @leftPad (	'0' ) int16 i8i8
+    , }
+")).
+Eval vm_compute in ("<<<M1170>>>" ++ check (runes_of_ascii "// c
+packet trueish{ match lengthOf	as a1 {
+/// triple
+// c
+""{,}""
+: o ,
+} ,	match x  as string_ //	t
+{ [
+10, ""a\\""
+    ]
+:options1
+    },
+    // trailing space 
+    } // 50% %s")).
+Eval vm_compute in ("<<<M21>>>" ++ check (runes_of_ascii "MetaData MetaDataX { zchar[0  ] calculatedFrom
+    // trailing space 
+    , float32/// triple
+matchKey
+    , string_
+//x
+// " ++ [128512]%N ++ runes_of_ascii " emoji
+calculatedFrom,	int lengthOf,
+    } 	 ")).
+Eval vm_compute in ("<<<M3946>>>" ++ check (runes_of_ascii "
+packet stringy
+
+{
+
+@tag(  0	) @calculatedFrom(
+    // 50% %s
+    ""1"")
+@calculatedFrom( 
+""""  ) 
+string
+chars
+	`a\` ,
+@calculatedFrom(""" ++ [28040; 24687]%N ++ runes_of_ascii """) 
+asx  metadata
+`" ++ [233]%N ++ runes_of_ascii "`, }
+")).
+Eval vm_compute in ("<<<M802>>>" ++ check (runes_of_ascii "root packet
+    rootA
+    {
+@tag(
+    7
+)@calculatedFrom(
+""`tick`"" ) a1
+    // packet A { u8 x, }
+    @calculatedFrom( """ ++ [28040; 24687]%N ++ runes_of_ascii """ ) ,
+// packet A { u8 x, }
+//x
+}
+
+")).
+Eval vm_compute in ("<<<M3378>>>" ++ check (runes_of_ascii "
+packet B
+{
+
+u8
+a,
+
+}
+    root
+packet	P
+{	u8 K
+
+    ,
+match
+	K
+
+    as
+
+    Body {
+	1
+:
+B
+	,}  ,
+u16
+    L
+@lengthOf(
+    Body) 
+,
+
+    }
+
+")).
+Eval vm_compute in ("<<<M2121>>>" ++ check (runes_of_ascii "MetaData BodyLength
+{ int8 Foo
+, string
+    MetaDataX , float zchar ,pack options1
+,asx asx string_, }
+packet u8x {Foo@lengthOf(charz )
+`" ++ [28040; 24687; 31867; 22411]%N ++ runes_of_ascii "`,  }
+")).
+Eval vm_compute in ("<<<M2196>>>" ++ check (runes_of_ascii "MetaData BodyLength
+{ int8 Foo
+, string
+    MetaDataX , float zchar ,pack options1
+,asx string_, }
+pack''et u8x {Foo@lengthOf(charz )
+`" ++ [28040; 24687; 31867; 22411]%N ++ runes_of_ascii "`,  }
+")).
+Eval vm_compute in ("<<<M800>>>" ++ check (runes_of_ascii "options{f32a
+= false ; stringy =' '
+    ;
+    calculatedFrom= ' '
+;
+    // packet A { u8 x, }
+    }	packet Packet
+    { } // `tick` ""quote"" 'q'")).
+Eval vm_compute in ("<<<M2208>>>" ++ check (runes_of_ascii "MetaData BodyLength
+{ int8 a" ++ [769]%N ++ runes_of_ascii "b
+, string
+    MetaDataX , float zchar ,pack options1
+,asx string_, }
+packet u8x {Foo@lengthOf(charz )
+`" ++ [28040; 24687; 31867; 22411]%N ++ runes_of_ascii "`,  }
+")).
+Eval vm_compute in ("<<<M1992>>>" ++ check (runes_of_ascii "
+packet leftPad {
+@leftPad( '0')
+u32
+i64_ `100% of %d` ,repeat// 50% %s
+i8 chars chars
+    ,
+} MetaData
+    f32a
+{ // packet A { u8 x, }
+}")).
+Eval vm_compute in ("<<<M3639>>>" ++ check (runes_of_ascii "MetaData pack {
+    // c
+    //	t
+    i16 float `two words`,// " ++ [128512]%N ++ runes_of_ascii " emoji
+    string string_,
+    u16 charz,
+    string_ crc,
+    Packet Z9_,
+}")).
+Eval vm_compute in ("<<<M2004>>>" ++ check (runes_of_ascii "
+packet leftPad {
+@leftPad( '0')
+u32
+i64_ `100% of %d` ,repeat// 50% %s
+i8 chars
+    ,
+char MetaData
+    f32a
+{ // packet A { u8 x, }
+}")).
+Eval vm_compute in ("<<<M2224>>>" ++ check (runes_of_ascii "options
+    {
+x_y_z// " ++ [27880; 37322]%N ++ runes_of_ascii "
+= = 10 ; }
+packet body {
+    @calculatedFrom(
+// trailing space 
+// " ++ [27880; 37322]%N ++ runes_of_ascii "
+""1""
+)	match T as Foo
+    {
+255 :T , }
+,}")).
+Eval vm_compute in ("<<<M2125>>>" ++ check (runes_of_ascii "MetaData BodyLength
+{ int8 Foo
+, string
+    MetaDataX , float zchar ,pack options1
+,asx , }
+packet u8x {Foo@lengthOf(charz )
+`" ++ [28040; 24687; 31867; 22411]%N ++ runes_of_ascii "`,  }
+")).
+Eval vm_compute in ("<<<M1993>>>" ++ check (runes_of_ascii "
+packet leftPad {
+@leftPad( '0')
+u32
+i64_ `100% of %d` ,repeat// 50% %s
+i8 ,
+    chars
+} MetaData
+    f32a
+{ // packet A { u8 x, }
+}")).
+Eval vm_compute in ("<<<M2311>>>" ++ check (runes_of_ascii "options
+    {
+x_y_z// " ++ [27880; 37322]%N ++ runes_of_ascii "
+= 10 ; }
+packet body {
+    @calculatedFrom(
+// trailing space 
+// " ++ [27880; 37322]%N ++ runes_of_ascii "
+""1""
+)	match T as Foo
+    {
+255 :{ , }
+,}")).
+Eval vm_compute in ("<<<M2293>>>" ++ check (runes_of_ascii "options
+    {
+x_y_z// " ++ [27880; 37322]%N ++ runes_of_ascii "
+= 10 ; }
+packet body {
+    @calculatedFrom(
+// trailing space 
+// " ++ [27880; 37322]%N ++ runes_of_ascii "
+""1""
+)	match T as Foo
+    
+255 :T , }
+,}")).
+Eval vm_compute in ("<<<M3799>>>" ++ check (runes_of_ascii "//
+packet Packet {
+    repeat char[] len,
+    zchar As `line1
+    line2`,
+    @lengthOf(charz)
+    repeat int8 metadata,/// triple
+}")).
+Eval vm_compute in ("<<<M1065>>>" ++ check (runes_of_ascii "  packet
+    stringy {
+    repeatCount @calculatedFrom(""a	b""),
+    @lengthOf( string_ //x
+) repeat
+i64_ metadata `it's`
+    , }
+")).
+Eval vm_compute in ("<<<M3888>>>" ++ check (runes_of_ascii "packet
+	A {
+match
+k
+
+    as
+
+n
+	{[ 
+""a""  , ""bb"",  ""c c"" ,
+""d""
+,
+
+""e""
+    ,""f""
+
+    ]  :  B ,
+
+    2 :
+C
+
+}	,
+
+    }
+")).
+Eval vm_compute in ("<<<M762>>>" ++ check (runes_of_ascii "root packet u8x  { //	t
+@lengthOf( _x ) @tag( 4294967296
+    ) @lengthOf(  int ) string i64_@calculatedFrom(""a	b"" ) ,
+    }")).
+Eval vm_compute in ("<<<M2192>>>" ++ check (runes_of_ascii "MetaData BodyLength
+{ int8 Foo
+, string
+    MetaDataX , float zchar ,pack options1
+,asx string_, }
+packet u8x {Foo@lengt")).
+Eval vm_compute in ("<<<M4067>>>" ++ check (runes_of_ascii "
+packet	A {match k as n{	[
+""a""  ,""bb"" ,
+
+    007
+
+,
+
+""d""
+
+    , ""e""  , 66] 
+: 
+B
+
+    , 2 
+:
+C  }
+
+    ,
+} ")).
+Eval vm_compute in ("<<<M1911>>>" ++ check (runes_of_ascii "packet o {
+    roots `it's`
+// trailing space 
+//x
+, char[ 4" ++ [65279]%N ++ runes_of_ascii "2
+    ]  A, // " ++ [27880; 37322]%N ++ runes_of_ascii "
+f64
+repeatCount
+    `crlf
+line`
+,}")).
+Eval vm_compute in ("<<<M2164>>>" ++ check (runes_of_ascii "MetaData BodyLength
+{ int8 Foo
+, string
+    MetaDataX , float zchar ,pack options1
+,asx string_, }
+packet u8x {Foo")).
+Eval vm_compute in ("<<<M1862>>>" ++ check (runes_of_ascii "packet o {
+    roots `it's`
+// trailing space 
+//x
+, char[ 
+    ]  A, // " ++ [27880; 37322]%N ++ runes_of_ascii "
+f64
+repeatCount
+    `crlf
+line`
+,}")).
+Eval vm_compute in ("<<<M3730>>>" ++ check (runes_of_ascii "
+
+  packet
+
+A 
+{
+	match 
+k	as	n  {
+[""a"",	""bb"",
+
+    ""c c"" ,""d""
+,
+""e""
+    ]:B
+    ,
+    2	: C
+
+} ,
+
+    }
+
+")).
+Eval vm_compute in ("<<<M1011>>>" ++ check (runes_of_ascii "packet len
+{
+T@lengthOf( lengthOf )
+    ,
+} packet
+T {// `tick` ""quote"" 'q'
+repeat zchar[
+7 ] body ,	}")).
+Eval vm_compute in ("<<<M4234>>>" ++ check (runes_of_ascii "packet msg_type {
+    uint16 T @lengthOf(i8i8),
+    repeat i32 int,
+    @lengthOf(x_y_z)
+    int64 As,
+}")).
+Eval vm_compute in ("<<<M3429>>>" ++ check (runes_of_ascii "packet FooBar {
+    u8 a,
+}
+packet foo_bar {
+    u16 b,
+}
+root packet R {
+    FooBar,
+    foo_bar,
+}
+")).
+Eval vm_compute in ("<<<M1385>>>" ++ check (runes_of_ascii "packet msg_type {
+@calculatedFrom( """ ++ [233]%N ++ runes_of_ascii "t" ++ [233]%N ++ runes_of_ascii """
+) f64
+    lengthOf `" ++ [28040; 24687; 31867; 22411]%N ++ runes_of_ascii "` , repeat	int
+,f32	body
+    ,}")).
+Eval vm_compute in ("<<<M1490>>>" ++ check (runes_of_ascii "packet
+T
+{ match repeatCount as	calculatedFrom
+{ [65535 ]	: As	,
+} char[]}
+// trailing space 
+")).
+Eval vm_compute in ("<<<M1473>>>" ++ check (runes_of_ascii "packet
+T
+{ match repeatCount as	calculatedFrom
+{ [65535 ]	: As As	,
+} ,}
+// trailing space 
+")).
+Eval vm_compute in ("<<<M1503>>>" ++ check (runes_of_ascii "packet
+T
+{ match repeatCount as	calculatedFrom
+{ [65535 ]	: As	,
+$ } ,}
+// trailing space 
+")).
+Eval vm_compute in ("<<<M3798>>>" ++ check (runes_of_ascii "options {
+    a1 = ""\n""
+    Z9_ = char[4294967296]
+    metadata = char[];
+    As = u32;
+}//")).
+Eval vm_compute in ("<<<M2953>>>" ++ check (runes_of_ascii "packet A {
+  match k as n {
+    [""a"", 22, ""c c"", 4, ""e"", 66, ""g"", 8] : B,
+    2 : C
+  },
+}")).
+Eval vm_compute in ("<<<M1437>>>" ++ check (runes_of_ascii "packet
+T
+{ match repeatCount 	calculatedFrom
+{ [65535 ]	: As	,
+} ,}
+// trailing space 
+")).
+Eval vm_compute in ("<<<M556>>>" ++ check (runes_of_ascii "options
+{ x  = string
+x_y_z ='\x00';falsey =
+1; chars = true; Logon =
+    ""packet"" }
+
+")).
+Eval vm_compute in ("<<<M1457>>>" ++ check (runes_of_ascii "packet
+T
+{ match repeatCount as	calculatedFrom
+{ [ ]	: As	,
+} ,}
+// trailing space 
+")).
+Eval vm_compute in ("<<<M1762>>>" ++ check (runes_of_ascii "options{  lengthOf =//x
+i16;
+    BodyLength = 0 ; =
+pack false;
+    A = char[ 3 ] }")).
+Eval vm_compute in ("<<<M1800>>>" ++ check (runes_of_ascii "options{  lengthOf =//x
+i16;
+    BodyLength = 0 ; pack
+= false;
+    A = char[ 3  }")).
+Eval vm_compute in ("<<<M2928>>>" ++ check (runes_of_ascii "packet A {
+  match k as n {
+    [""a"", 22, ""c c"", 4, ""e"", 66] : B
+    2 : C
+  },
+}")).
+Eval vm_compute in ("<<<M1790>>>" ++ check (runes_of_ascii "options{  lengthOf =//x
+i16;
+    BodyLength = 0 ; pack
+= false;
+    A =  3 ] }")).
+Eval vm_compute in ("<<<M3269>>>" ++ check (runes_of_ascii "MetaData Foo { zchar[ 0 ] matchKey , } options { lengthOf = // c
+i32 u = 00 ; }")).
+Eval vm_compute in ("<<<M3394>>>" ++ check (runes_of_ascii "  root packet P {u16
+a
+,  u32
+Sum
+
+    @calculatedFrom( ""CRC32""
+)
+	, }
+
+")).
+Eval vm_compute in ("<<<M2747>>>" ++ check (runes_of_ascii "uint64 '0' packet char[] string @lengthOf( u16 : { repeat = 1 match char[]")).
+Eval vm_compute in ("<<<M3907>>>" ++ check (runes_of_ascii "  packet
+u8x { }
+	MetaData // c
+  crc  {
+char[4294967296
+	] 
+Foo,
+    } ")).
+Eval vm_compute in ("<<<M6>>>" ++ check (runes_of_ascii "packet
+    Logon
+{
+}
+MetaData repeatCount{//	t
+}
+// trailing space 
+")).
+Eval vm_compute in ("<<<M1560>>>" ++ check (runes_of_ascii "// 50% %s
+packet	a1
+    { zchar[
+// a // b
+// 50% %s
+007]
+T `it's`")).
+Eval vm_compute in ("<<<M717>>>" ++ check (runes_of_ascii "packet float
+    { @rightPad
+( )
+char[
+4294967296 ]
+    int , }
+")).
+Eval vm_compute in ("<<<M2877>>>" ++ check (runes_of_ascii "packet A {
+  match k as n {
+    [1, ""bb""] : B,
+    2 : C
+  },
+}")).
+Eval vm_compute in ("<<<M3293>>>" ++ check (runes_of_ascii "packet u8x // c
+{ } MetaData crc { char[ 4294967296 ] Foo , }")).
+Eval vm_compute in ("<<<M2735>>>" ++ check (runes_of_ascii "@calculatedFrom( options ] 0123456789 @calculatedFrom( int16")).
+Eval vm_compute in ("<<<M1866>>>" ++ check (runes_of_ascii "packet o {
+    roots `it's`
+// trailing space 
+//x
+, char[")).
+Eval vm_compute in ("<<<M615>>>" ++ check (runes_of_ascii "options {}
+root  packet calculatedFrom {	a1 `" ++ [28040; 24687; 31867; 22411]%N ++ runes_of_ascii "` ,
+}")).
+Eval vm_compute in ("<<<M3716>>>" ++ check (runes_of_ascii "
+packet
+int
+    {
+	leftPad Foo  `// not a comment`,}")).
+Eval vm_compute in ("<<<M1232>>>" ++ check (runes_of_ascii "// `tick` ""quote"" 'q'
+MetaData calculatedFrom { }")).
+Eval vm_compute in ("<<<M3040>>>" ++ check (runes_of_ascii "MetaData M {
+    u8 x `a
+
+b`,
+    T t `a
+
+b`,
+}")).
+Eval vm_compute in ("<<<M228>>>" ++ check (runes_of_ascii "MetaData T { char[ 7 ] len
+    `tab	here`, }")).
+Eval vm_compute in ("<<<M4274>>>" ++ check (runes_of_ascii "MetaData  Foo
+    // " ++ [27880; 37322]%N ++ runes_of_ascii "
+	// 50% %s
+  {}
+")).
+Eval vm_compute in ("<<<M1278>>>" ++ check (runes_of_ascii "packet x_y_z
+    {uint16 asx
+    ,  } 	 ")).
+Eval vm_compute in ("<<<M3223>>>" ++ check (runes_of_ascii "root packet // c
+u128 { chars `doc` , }")).
+Eval vm_compute in ("<<<M3710>>>" ++ check (runes_of_ascii "
+options
+{  u8x 
+// c
+= 
+false
+
+}
+
+")).
+Eval vm_compute in ("<<<M2358>>>" ++ check (runes_of_ascii "MetaData
+{ Foo Header //
+pack ,	} 	 ")).
+Eval vm_compute in ("<<<M2367>>>" ++ check (runes_of_ascii "MetaData
+Foo {pack //
+Header ,	} 	 ")).
+Eval vm_compute in ("<<<M2832>>>" ++ check ([65533]%N ++ runes_of_ascii "" ++ [65533; 65533; 65533]%N ++ runes_of_ascii "Ce8xJ" ++ [65533; 65533; 23; 65533; 65533]%N ++ runes_of_ascii "v" ++ [65533; 65533; 65533; 950; 65533; 65533]%N ++ runes_of_ascii "sl" ++ [65533]%N ++ runes_of_ascii "%" ++ [65533; 65533; 77099; 65533; 65533; 1978; 4; 560]%N)).
+Eval vm_compute in ("<<<M2400>>>" ++ check (runes_of_ascii "MetaData
+Foo {a" ++ [769]%N ++ runes_of_ascii "b //
+pack ,	} 	 ")).
+Eval vm_compute in ("<<<M2843>>>" ++ check (runes_of_ascii ";" ++ [65533; 1004; 28; 65533]%N ++ runes_of_ascii "K" ++ [26453]%N ++ runes_of_ascii ":qC" ++ [65533]%N ++ runes_of_ascii "mM" ++ [22; 65533; 65533]%N ++ runes_of_ascii "V" ++ [5; 65533; 17; 65533; 65533]%N ++ runes_of_ascii "	" ++ [65533; 65533; 65533; 65533]%N ++ runes_of_ascii "4" ++ [65533; 22; 65533]%N)).
+Eval vm_compute in ("<<<M3154>>>" ++ check (runes_of_ascii "packet A {
+ u8 x `d" ++ [12]%N ++ runes_of_ascii "`, // c" ++ [12]%N ++ runes_of_ascii "
+}")).
+Eval vm_compute in ("<<<M2593>>>" ++ check (runes_of_ascii "packet A { x @lengthOf(y), }")).
+Eval vm_compute in ("<<<M2631>>>" ++ check (runes_of_ascii "packet A { @leftPad u8 x, }")).
+Eval vm_compute in ("<<<M3831>>>" ++ check (runes_of_ascii "options {
+    tag = i32;
+}")).
+Eval vm_compute in ("<<<M3200>>>" ++ check (runes_of_ascii "packet A { // a
+ u8 x, }")).
+Eval vm_compute in ("<<<M1347>>>" ++ check (runes_of_ascii "MetaData	options1	{	}
+")).
+Eval vm_compute in ("<<<M4329>>>" ++ check (runes_of_ascii "
+MetaData	A {
+    }
+")).
+Eval vm_compute in ("<<<M2639>>>" ++ check (runes_of_ascii "packet A { } packet")).
+Eval vm_compute in ("<<<M3098>>>" ++ check (runes_of_ascii "// c" ++ [12288]%N ++ runes_of_ascii "
 packet A {
 }")).
-Eval vm_compute in ("<<<M497>>>" ++ check (runes_of_ascii "root packet tag")).
-Eval vm_compute in ("<<<M393>>>" ++ check (runes_of_ascii "packet")).
-Eval vm_compute in ("<<<M731>>>" ++ check (runes_of_ascii " " ++ [12]%N ++ runes_of_ascii " ")).
+Eval vm_compute in ("<<<M3199>>>" ++ check (runes_of_ascii "packet A { // a
+ }")).
+Eval vm_compute in ("<<<M3145>>>" ++ check (runes_of_ascii "packet A {
+}// c" ++ [11]%N)).
+Eval vm_compute in ("<<<M1086>>>" ++ check (runes_of_ascii "// c
+ // a // b")).
+Eval vm_compute in ("<<<M2679>>>" ++ check (runes_of_ascii "options A { }")).
+Eval vm_compute in ("<<<M461>>>" ++ check (runes_of_ascii "options {}")).
+Eval vm_compute in ("<<<M1724>>>" ++ check (runes_of_ascii "options{")).
+Eval vm_compute in ("<<<M948>>>" ++ check (runes_of_ascii "// c
+
+")).
+Eval vm_compute in ("<<<M2457>>>" ++ check (runes_of_ascii "true1")).
+Eval vm_compute in ("<<<M3166>>>" ++ check (runes_of_ascii "// c" ++ [65279]%N)).
+Eval vm_compute in ("<<<M1000>>>" ++ check (runes_of_ascii " //")).
+Eval vm_compute in ("<<<M2837>>>" ++ check (runes_of_ascii "nfK")).
+Eval vm_compute in ("<<<M2526>>>" ++ check (runes_of_ascii "`")).
